@@ -98,6 +98,15 @@ Proof. intro l. unfold plain, enc. apply Forall_forall. intros kv Hin. apply in_
 Lemma in_rev_fresh : forall (key : site) (l : list (site * nat)), (forall k, ~ In (key, k) l) -> forall k, ~ In (key, k) (rev l).
 Proof. intros key l H k Hin. apply in_rev in Hin. exact (H k Hin). Qed.
 
+Lemma remove_first_sub : forall A (p : A -> bool) l l' x, remove_first p l = Some l' -> In x l' -> In x l.
+Proof.
+  intros A p. induction l as [|y l IH]; intros l' x H Hx; cbn [remove_first] in H; [discriminate H|].
+  destruct (p y).
+  - inversion H; subst. right. exact Hx.
+  - destruct (remove_first p l) as [t|] eqn:E; [|discriminate H]. inversion H; subst.
+    destruct Hx as [<-|Hx]; [left; reflexivity|right; apply (IH t x eq_refl Hx)].
+Qed.
+
 Section Sim.
   Variable NC : bool.
   Variable tasks : list task.
@@ -105,7 +114,11 @@ Section Sim.
   Variable Henv : env_quiet env.
   Variable orc : oracle.
   Variable imm : nat -> bool.
-  Variable Himm : forall k, imm k = false.
+  Variable Himm : forall k, ec_imm env k = imm k.
+  (* [IM]: the engine may complete services at once; then the engine is the only function
+     registered for service-started notifications and no observer is attached *)
+  Variable IM : bool.
+  Variable Him0 : IM = false -> forall k, imm k = false.
   Variable Horc : ec_orc env = orc.
   Variable body : list xstmt.
   Variable N0 : NS.
@@ -117,7 +130,9 @@ Section Sim.
     iv_trans : ns_trans ns = ns_trans N0;
     iv_cbs : ns_cbs ns = ns_cbs N0;
     iv_ti : ns_test_ids ns = true;
-    iv_ls : ls_ok (ns_ls ns);
+    iv_ls : ls_ok (ns_ls ns) /\ (IM = true -> listeners_of SS (ns_ls ns) = [0] /\ ns_obs ns = []) /\
+            (forall i, In (EvFinish (ITest i)) (ns_awaited ns) -> i < ns_sid ns) /\
+            (forall i, In (ITest i) (ns_pending ns) -> i < ns_sid ns);
     iv_cnt : cnts_plain (ns_counters ns) /\ (NC = true -> ns_counters ns = []);
     iv_start : ns_start_place ns = 0;
     iv_final : ns_final_place ns = 1;
@@ -151,7 +166,7 @@ Section Sim.
   (* ---- a list of callbacks run one after the other (Mach.RunList) ---- *)
   Definition RunList : list cb -> NS -> NS -> Prop := Mach.RunList tasks env.
   Lemma rl_nil : forall s, RunList [] s s. Proof. exact (Mach.rl_nil tasks env). Qed.
-  Lemma rl_cons : forall c l s s1 s', RunCb tasks env c s s1 -> ns_cbs s1 = ns_cbs s ->
+  Lemma rl_cons : forall c l s s1 s', RunCb tasks env c s s1 -> ns_cbs s1 = ns_cbs s -> is_parloop_cb c = false ->
                                       RunList l s1 s' -> RunList (c :: l) s s'.
   Proof. exact (Mach.rl_cons tasks env). Qed.
   Lemma RunList_app : forall l1 l2 s s1 s', RunList l1 s s1 -> RunList l2 s1 s' -> RunList (l1 ++ l2) s s'.
@@ -179,9 +194,10 @@ Section Sim.
       (forall ci, a_ctx a = Some ci -> exists c, nth_error (ns_apis s) ci = Some c) ->
       (forall ci, a_ctx a = Some ci -> ci <> ai) -> sub_ok s a ->
       dict_get ident_eqb (a_uuid a) (ns_place_dict s) = Some p ->
+      ec_imm env (ns_nss s) = false ->
       RunCb tasks env (CbSS ai) s (notified SS (with_uuid (ITest (ns_sid s)) a) false (ss_st (a_in_loop a) ai p s)).
   Proof.
-    intros ai s a p Hls Hti Ha Hps Hc Hne Hn Hd. exists 4. intros f Hf. do 4 (destruct f as [|f]; [lia|]).
+    intros ai s a p Hls Hti Ha Hps Hc Hne Hn Hd Hni. exists 4. intros f Hf. do 4 (destruct f as [|f]; [lia|]).
     unfold ss_st. destruct (a_in_loop a) eqn:E; [apply run_cb_SS_loop|apply run_cb_SS]; assumption.
   Qed.
   Lemma RunCb_SF : forall ai s a,
@@ -237,28 +253,44 @@ Section Sim.
     injection H as E1 E2 E3 E4 E5 E6 E7 E8 E9. subst. split; reflexivity.
   Qed.
 
-  Lemma sim_SS : forall f ie il u n at_ ins ctx cid a fin g st g' ns pend,
-      start_stmt orc imm (S f) cid ie (XService n at_ ins) g = Ok (st, g') ->
+  (* the reference side of a service start, up to the point where the engine may complete it *)
+  Definition ss_pfx (cid : nat) (ie : ienv) (n : name) (at_ : site) (ins : list param) : M nat :=
+    id <- fresh_s ;; await id ;;; emit (mk SS n at_ id (Some cid) (subst_params ie ins)) ;;; k <- tick_ss ;; ret id.
+  Lemma start_svc_unf : forall f cid ie n at_ ins g,
+      start_stmt orc imm (S f) cid ie (XService n at_ ins) g =
+      match ss_pfx cid ie n at_ ins g with
+      | Ok (id, g1) => if imm (g_ss g)
+                       then (unawait id ;;; emit (mk SF n at_ id (Some cid) (subst_params ie ins)) ;;; ret RDone) g1
+                       else Ok (RAwait id, g1)
+      | Fuel => Fuel | Exn k => Exn k | Unsupported => Unsupported
+      end.
+  Proof.
+    intros. cbn [start_stmt]. unfold ss_pfx, bind, fresh_s, await, set_awaited, emit, tick_ss, ret.
+    rewrite !emit_gen_eq. cbn [g_ss set]. destruct (imm (g_ss g)); reflexivity.
+  Qed.
+
+  Lemma sim_SS : forall ie il u n at_ ins ctx cid a fin g id g' ns pend,
+      ss_pfx cid ie n at_ ins g = Ok (id, g') ->
       (NC = true -> ie = []) -> NC || idxfree ins = true ->
       Inv ns -> GR g ns pend ->
       nth_error (ns_apis ns) a = Some (with_uuid u (svc_api il n at_ ins ctx a)) ->
       dict_get ident_eqb u (ns_place_dict ns) = Some fin ->
       ctx_is ns ctx cid -> ctx <> a ->
       let ns' := notified SS (with_uuid (ITest (ns_sid ns)) (svc_api il n at_ ins ctx a)) false (ss_st il a fin ns) in
-      st = RAwait (g_sid g) /\ g_awaited g' = g_awaited g ++ [g_sid g] /\ g_sid g' = S (g_sid g) /\
-      RunCb tasks env (CbSS a) ns ns' /\ ns_cbs ns' = ns_cbs ns /\ Inv ns' /\ GR g' ns' (pend ++ [g_sid g]) /\
+      id = g_sid g /\ g_awaited g' = g_awaited g ++ [g_sid g] /\ g_sid g' = S (g_sid g) /\
+      (imm (g_ss g) = false -> RunCb tasks env (CbSS a) ns ns') /\ ns_cbs ns' = ns_cbs ns /\ Inv ns' /\ GR g' ns' (pend ++ [g_sid g]) /\
       ns_places ns' = ns_places ns /\
       ns_apis ns' = upd a (with_uuid (ITest (g_sid g))) (ns_apis ns) /\
       ns_place_dict ns' = (ITest (g_sid g), fin) :: ns_place_dict ns /\
       ns_counters ns' = ns_counters ns.
   Proof.
-    intros f ie il u n at_ ins ctx cid a fin g st g' ns pend H Hie Hidx Hinv Hgr Ha Hd (ac & Hac & Huc) Hne ns'.
+    intros ie il u n at_ ins ctx cid a fin g id g' ns pend H Hie Hidx Hinv Hgr Ha Hd (ac & Hac & Huc) Hne ns'.
     pose proof (inv_sub_ok ns (with_uuid u (svc_api il n at_ ins ctx a)) Hinv Hidx) as Hsub.
     destruct Hinv as [I1 I2 I3 I4 I5 I6 I7 I8 I9 (d & Id & Ik) I11].
     destruct Hgr as [G1 G2 G3 G4 G5 G6 G7 G8 G9 G10].
-    cbn [start_stmt] in H. unfold bind, fresh_s, await, set_awaited, emit, tick_ss in H.
-    rewrite emit_gen_eq in H. cbn [g_ss set] in H. rewrite Himm in H. unfold ret in H.
-    inversion H; subst st g'; clear H.
+    unfold ss_pfx, bind, fresh_s, await, set_awaited, emit, tick_ss in H.
+    rewrite emit_gen_eq in H. cbn [g_ss set] in H. unfold ret in H.
+    inversion H; subst id g'; clear H.
     set (PRE := ss_st il a fin ns) in *.
     assert (E_apis : ns_apis PRE = upd a (with_uuid (ITest (ns_sid ns))) (ns_apis ns)) by (unfold PRE, ss_st; destruct il; reflexivity).
     assert (E_dict : ns_place_dict PRE = (ITest (ns_sid ns), fin) :: ns_place_dict ns) by (unfold PRE, ss_st; destruct il; reflexivity).
@@ -281,15 +313,19 @@ Section Sim.
     assert (E_q : ns_q PRE = ns_q ns) by (unfold PRE, ss_st; destruct il; reflexivity).
     split; [reflexivity|]. split; [reflexivity|]. split; [reflexivity|].
     split.
-    { pose proof (RunCb_SS a ns _ fin I4 I3 Ha eq_refl) as Hr. cbn [with_uuid a_uuid a_in_loop svc_api] in Hr.
-      apply Hr; [| |exact Hsub|exact Hd].
+    { intro Hni. pose proof (RunCb_SS a ns _ fin (proj1 I4) I3 Ha eq_refl) as Hr. cbn [with_uuid a_uuid a_in_loop svc_api] in Hr.
+      apply Hr; [| |exact Hsub|exact Hd|rewrite Himm, G3; exact Hni].
       - intros ci Hci. cbn [a_ctx] in Hci. inversion Hci; subst ci. exists ac. exact Hac.
       - intros ci Hci. cbn [a_ctx] in Hci. inversion Hci; subst ci. exact Hne. }
     unfold ns'. split; [rewrite nf_cbs; exact E_cbs|].
     split; [|split; [|split; [|split]]].
     - constructor; rewrite ?nf_trans, ?nf_cbs, ?nf_test_ids, ?nf_ls, ?nf_obs, ?nf_start_place, ?nf_final_place,
                    ?nf_places, ?nf_apis, ?nf_place_dict, ?nf_sid, ?nf_counters,
-                   ?E_trans, ?E_cbs, ?E_ti, ?E_ls, ?E_st, ?E_fi, ?E_pl, ?E_cn; try assumption.
+                   ?E_trans, ?E_cbs, ?E_ti, ?E_ls, ?E_obs, ?E_st, ?E_fi, ?E_pl, ?E_cn; try assumption.
+      + destruct I4 as (A4 & B4 & C4 & D4). split; [exact A4|]. split; [exact B4|].
+        rewrite nf_awaited, nf_pending, E_sid, E_aw, E_pend. unfold pend_after. cbn [with_uuid a_uuid]. split.
+        * intros i Hi. apply in_app_or in Hi. destruct Hi as [Hi|[Hi|[]]]; [specialize (C4 i Hi); lia|inversion Hi; lia].
+        * intros i Hi. apply in_app_or in Hi. destruct Hi as [Hi|[Hi|[]]]; [specialize (D4 i Hi); lia|inversion Hi; lia].
       + rewrite E_apis, upd_length. exact I9.
       + rewrite E_dict, E_sid.
         exists ((ITest (ns_sid ns), fin) :: d). split; [rewrite Id; reflexivity|].
@@ -364,7 +400,7 @@ Section Sim.
   Proof.
     intros a a0 ocid g g1 ns pend Hinv Hgr Ha Hl Htask Hidx Hc (S1 & S2 & S3 & S4 & S5 & S6 & S7 & S8 & S9) ns'.
     pose proof (inv_sub_ok ns a0 Hinv Hidx) as Hsub.
-    destruct Hinv as [I1 I2 I3 I4 I5 I6 I7 I8 I9 (d & Id & Ik) I11].
+    destruct Hinv as [I1 I2 I3 I4 I5 I6 I7 I8 I9 (d & Id & Ik) I11]. pose proof (proj1 I4) as I4l.
     destruct Hgr as [G1 G2 G3 G4 G5 G6 G7 G8 G9 G10].
     split.
     { apply RunCb_TS; try assumption.
@@ -441,7 +477,12 @@ Section Sim.
     split; [|split; [|split; [|split]]].
     - constructor; rewrite ?nf_trans, ?nf_cbs, ?nf_test_ids, ?nf_ls, ?nf_obs, ?nf_start_place, ?nf_final_place,
                    ?nf_places, ?nf_apis, ?nf_place_dict, ?nf_sid, ?nf_counters; try assumption.
-      exists d. split; [exact Id|exact Ik].
+      + destruct I4 as (A4 & B4 & C4 & D4). split; [exact A4|]. split; [exact B4|]. rewrite nf_awaited, nf_pending.
+        split; [exact C4|]. intros i Hi. apply D4. unfold pend_after in Hi. destruct k; try exact Hi;
+          try (exfalso; destruct Hk as [E|E]; discriminate E).
+        destruct (remove_first (ident_eqb (a_uuid a1)) (ns_pending ns)) as [t|] eqn:Er; [|exact Hi].
+        apply (remove_first_sub _ _ _ _ _ Er Hi).
+      + exists d. split; [exact Id|exact Ik].
     - constructor; rewrite ?nf_tid, ?nf_sid, ?nf_nss, ?nf_running, ?nf_log, ?nf_awaited, ?nf_pending.
       + congruence.
       + congruence.
@@ -501,7 +542,8 @@ Section Sim.
   Proof. exact (Mach.Starts_RunList tasks env _ _). Qed.
   Lemma Starts_app : forall l1 l2 a b c, Starts l1 a b -> Starts l2 b c -> Starts (l1 ++ l2) a c.
   Proof. exact (Mach.Starts_app tasks env _ _). Qed.
-  Lemma Starts_cons : forall c l a b d, RunCb tasks env c a b -> ns_cbs b = ns_cbs a -> Starts l b d -> Starts (c :: l) a d.
+  Lemma Starts_cons : forall c l a b d, RunCb tasks env c a b -> ns_cbs b = ns_cbs a -> is_parloop_cb c = false ->
+                                        Starts l b d -> Starts (c :: l) a d.
   Proof. exact (Mach.Starts_cons tasks env _ _). Qed.
 
   (* a complete evaluation *)
@@ -574,7 +616,8 @@ Section Sim.
   Definition MS : NS * list (list cb) -> NS * list (list cb) -> Prop := Mach.MS tasks env (ns_trans N0) (ns_cbs N0).
   Lemma MS_refl : forall c, MS c c. Proof. exact (Mach.MS_refl tasks env _ _). Qed.
   Lemma MS_trans : forall a b c, MS a b -> MS b c -> MS a c. Proof. exact (Mach.MS_trans tasks env _ _). Qed.
-  Lemma MS_cb : forall c l K s s1, RunCb tasks env c s s1 -> ns_cbs s1 = ns_cbs s -> MS (s, (c :: l) :: K) (s1, l :: K).
+  Lemma MS_cb : forall c l K s s1, RunCb tasks env c s s1 -> ns_cbs s1 = ns_cbs s -> is_parloop_cb c = false ->
+                                   MS (s, (c :: l) :: K) (s1, l :: K).
   Proof. exact (Mach.MS_cb tasks env _ _). Qed.
   Lemma MS_list : forall l1 l K s s1, RunList l1 s s1 -> MS (s, (l1 ++ l) :: K) (s1, l :: K).
   Proof. exact (Mach.MS_list tasks env _ _). Qed.
@@ -582,8 +625,10 @@ Section Sim.
   Proof. intros a b K H. apply H. Qed.
   Lemma MS_starts : forall l a b rest K, Starts l a b -> MS (a, (l ++ rest) :: K) (b, rest :: K).
   Proof. intros l a b rest K H. apply H. Qed.
-  Lemma MS_unwind : forall k l K s, Inv s -> dead s -> MS (s, Unw k (l :: K)) (s, l :: K).
-  Proof. intros k l K s Hi Hd. apply (Mach.MS_unwind tasks env _ _ k l K s (iv_trans _ Hi)). exact Hd. Qed.
+  Lemma MS_unwind : forall ms l K s, Inv s -> dead s -> MS (s, [] :: UnwE ms (l :: K)) (bumpn (sumn ms) s, l :: K).
+  Proof. intros ms l K s Hi Hd. apply (Mach.MS_unwindE tasks env _ _ ms l K s (iv_trans _ Hi)). exact Hd. Qed.
+  Lemma MS_marks : forall j l K s, MS (s, (marks j ++ l) :: K) (bumpn j s, l :: K).
+  Proof. exact (Mach.MS_marks tasks env _ _). Qed.
 
   (* the only enabled transition fires *)
   Lemma MS_fire1 : forall ns m e tr l K,
@@ -601,48 +646,55 @@ Section Sim.
   Qed.
 
   (* a callback that opens an evaluation *)
-  Lemma MS_push : forall c l K s s2, ns_cbs s2 = ns_cbs s ->
+  Lemma MS_push : forall c l K s s2, ns_cbs s2 = ns_cbs s -> is_parloop_cb c = false ->
       (forall s', EvalTo tasks env s2 s' -> RunCb tasks env c s s') -> MS (s, (c :: l) :: K) (s2, [] :: l :: K).
-  Proof. intros c l K s s2 Hc H. apply (Mach.MS_push tasks env _ _). split; assumption. Qed.
+  Proof. intros c l K s s2 Hc Hnp H. apply (Mach.MS_push tasks env _ _). split; [|split]; assumption. Qed.
+  Lemma MS_pushb : forall c l K s s2, ns_cbs s2 = ns_cbs s -> is_parloop_cb c = false ->
+      (forall s', EvalTo tasks env s2 s' -> RunCb tasks env c s (bump s')) -> MS (s, (c :: l) :: K) (s2, [] :: (MARK :: l) :: K).
+  Proof. intros c l K s s2 Hc Hnp H. apply (Mach.MS_pushb tasks env _ _). split; [|split]; assumption. Qed.
 
   (* the start callbacks [l] of a component (followed by [rest], in an evaluation whose outer
      evaluations are [K]): either they run and the component waits, or the component completes
      inside evaluations that they open ([k] of them are still open), and the callbacks [xcbs]
      of its exit transition are about to run *)
   Definition Enters (l : list cb) (ns ns' : NS) (done : bool) (xcbs : list cb) : Prop :=
-    if done then exists k, forall rest K, MS (ns, (l ++ rest) :: K) (ns', xcbs :: Unw k (rest :: K))
+    if done then exists ms m, forall rest K, MS (ns, (l ++ rest) :: K) (ns', xcbs :: UnwE ms ((marks m ++ rest) :: K))
     else Starts l ns ns'.
   (* from the scan of an evaluation to the exit transition of a component, [k] evaluations deeper *)
   Definition Exits (ns ns' : NS) (xcbs : list cb) : Prop :=
-    exists k, forall K, MS (ns, [] :: K) (ns', xcbs :: Unw k K).
+    exists ms, forall K, MS (ns, [] :: K) (ns', xcbs :: UnwE ms K).
 
   Lemma Enters_pre : forall l1 l2 a b c d x, Starts l1 a b -> Enters l2 b c d x -> Enters (l1 ++ l2) a c d x.
   Proof.
     intros l1 l2 a b c d x H1 H2. destruct d; cbn [Enters] in *.
-    - destruct H2 as [k H2]. exists k. intros rest K. rewrite <- app_assoc.
+    - destruct H2 as (ms & m & H2). exists ms, m. intros rest K. rewrite <- app_assoc.
       eapply MS_trans; [apply (MS_starts _ _ _ _ _ H1)|apply H2].
     - eapply Starts_app; eassumption.
   Qed.
-  Lemma Enters_cons : forall c l a b e d x, RunCb tasks env c a b -> ns_cbs b = ns_cbs a -> Enters l b e d x ->
-                                            Enters (c :: l) a e d x.
+  Lemma Enters_cons : forall c l a b e d x, RunCb tasks env c a b -> ns_cbs b = ns_cbs a -> is_parloop_cb c = false ->
+                                            Enters l b e d x -> Enters (c :: l) a e d x.
   Proof.
-    intros c l a b e d x H Hc H2. change (c :: l) with ([c] ++ l). eapply Enters_pre; [|exact H2].
-    apply Starts_RunList. eapply rl_cons; [exact H|exact Hc|apply rl_nil].
+    intros c l a b e d x H Hc Hnp H2. change (c :: l) with ([c] ++ l). eapply Enters_pre; [|exact H2].
+    apply Starts_RunList. eapply rl_cons; [exact H|exact Hc|exact Hnp|apply rl_nil].
   Qed.
   Lemma Enters_cb : forall l a b b' c x, Enters l a b true (c :: x) -> RunCb tasks env c b b' -> ns_cbs b' = ns_cbs b ->
-                                         Enters l a b' true x.
+                                         is_parloop_cb c = false -> Enters l a b' true x.
   Proof.
-    intros l a b b' c x [k H] Hr Hc. exists k. intros rest K. eapply MS_trans; [apply H|]. apply MS_cb; assumption.
+    intros l a b b' c x (ms & m & H) Hr Hc Hnp. exists ms, m. intros rest K. eapply MS_trans; [apply H|]. apply MS_cb; assumption.
   Qed.
-  Lemma Exits_cb : forall a b b' c x, Exits a b (c :: x) -> RunCb tasks env c b b' -> ns_cbs b' = ns_cbs b -> Exits a b' x.
+  Lemma Exits_cb : forall a b b' c x, Exits a b (c :: x) -> RunCb tasks env c b b' -> ns_cbs b' = ns_cbs b ->
+                                      is_parloop_cb c = false -> Exits a b' x.
   Proof.
-    intros a b b' c x [k H] Hr Hc. exists k. intros K. eapply MS_trans; [apply H|]. apply MS_cb; assumption.
+    intros a b b' c x [ms H] Hr Hc Hnp. exists ms. intros K. eapply MS_trans; [apply H|]. apply MS_cb; assumption.
   Qed.
-  Lemma Exits_steps : forall a b, Exits a b [] -> Inv b -> dead b -> Steps a b.
+  (* the unwinding passes the markers: the engine's notification counter advances *)
+  Lemma Exits_steps : forall a b, Exits a b [] -> Inv b -> dead b -> exists j, Steps a (bumpn j b).
   Proof.
-    intros a b [k H] Hi Hd K. eapply MS_trans; [apply H|].
-    change ([] :: Unw k K) with (Unw (S k) K). rewrite Unw_S'. apply MS_unwind; assumption.
+    intros a b [ms H] Hi Hd. exists (sumn ms). intro K. eapply MS_trans; [apply H|].
+    apply (Mach.MS_unwind0 tasks env _ _ ms K b (iv_trans _ Hi) Hd).
   Qed.
+  Lemma MS_unwind0 : forall ms K s, Inv s -> dead s -> MS (s, [] :: UnwE ms K) (bumpn (sumn ms) s, [] :: K).
+  Proof. intros ms K s Hi Hd. apply (Mach.MS_unwind0 tasks env _ _ ms K s (iv_trans _ Hi) Hd). Qed.
   Lemma Steps_Exits : forall a b c x, Steps a b -> Exits b c x -> Exits a c x.
   Proof. intros a b c x H [k H2]. exists k. intros K. eapply MS_trans; [apply H|apply H2]. Qed.
 
@@ -898,6 +950,52 @@ Section Sim.
   Lemma dis_dead : forall ns m, Inv ns -> Marks ns m -> (forall j, j < nT -> dis m j) -> dead ns.
   Proof. intros ns m Hi Hm H j Hj. eapply dis_disabled; [exact Hi|exact Hm|apply H; exact Hj]. Qed.
 
+  (* ---- the engine's notification counter is not observed by anything below ---- *)
+  Lemma Inv_bumpn : forall j s, Inv s -> Inv (bumpn j s).
+  Proof. intros j s [I1 I2 I3 I4 I5 I6 I7 I8 I9 I10 I11]. constructor; assumption. Qed.
+  Lemma GR_bumpn : forall j g s pend, GR g s pend -> GR g (bumpn j s) pend.
+  Proof. intros j g s pend [G1 G2 G3 G4 G5 G6 G7 G8 G9 G10]. constructor; assumption. Qed.
+  Lemma Frame_bumpn : forall j a b lo hi, Frame a b lo hi -> Frame a (bumpn j b) lo hi.
+  Proof. intros j a b lo hi [A S D]. constructor; assumption. Qed.
+  Lemma Post_bumpn : forall j ns ns' g g' pend0 lo hi, Post ns ns' g g' pend0 lo hi -> Post ns (bumpn j ns') g g' pend0 lo hi.
+  Proof.
+    intros j ns ns' g g' pend0 lo hi (I & F & new & A & G). split; [apply Inv_bumpn; exact I|].
+    split; [apply Frame_bumpn; exact F|]. exists new. split; [exact A|apply GR_bumpn; exact G].
+  Qed.
+  Lemma UnwE_nest : forall ms2 m2 ms (X : list (list cb)), UnwE ms2 ((marks m2 ++ []) :: UnwE ms X) = UnwE (ms2 ++ m2 :: ms) X.
+  Proof. intros ms2 m2 ms X. rewrite app_nil_r. change (marks m2 :: UnwE ms X) with (UnwE (m2 :: ms) X). apply UnwE_app. Qed.
+
+  (* a component entered from inside evaluations that a callback of [L] has opened *)
+  Lemma Enters_after : forall (d : bool) L L2 ns nsf ns2 ms m xcbs,
+      (forall rest K, MS (ns, (L ++ rest) :: K) (nsf, L2 :: UnwE ms ((marks m ++ rest) :: K))) ->
+      Enters L2 nsf ns2 d xcbs -> Inv ns2 -> (d = false -> dead ns2) ->
+      Enters L ns (if d then ns2 else bumpn (m + sumn ms) ns2) d xcbs.
+  Proof.
+    intros d L L2 ns nsf ns2 ms m xcbs Hgo Hen Hi Hd. destruct d; cbn [Enters] in *.
+    - destruct Hen as (ms2 & m2 & Hk2). exists (ms2 ++ m2 :: ms), m. intros rest K. eapply MS_trans; [apply Hgo|].
+      specialize (Hk2 [] (UnwE ms ((marks m ++ rest) :: K))). rewrite app_nil_r, UnwE_nest in Hk2. exact Hk2.
+    - intros rest K. eapply MS_trans; [apply Hgo|].
+      eapply MS_trans; [specialize (Hen [] (UnwE ms ((marks m ++ rest) :: K))); rewrite app_nil_r in Hen; exact Hen|].
+      eapply MS_trans; [apply MS_unwind; [exact Hi|exact (Hd eq_refl)]|].
+      eapply MS_trans; [apply MS_marks|]. rewrite (Mach.bumpn_add). apply MS_refl.
+  Qed.
+  (* ... from the scan of an evaluation *)
+  Lemma Steps_after : forall L2 ns nsf ns2 ms,
+      (forall K, MS (ns, [] :: K) (nsf, L2 :: UnwE ms K)) ->
+      Starts L2 nsf ns2 -> Inv ns2 -> dead ns2 -> Steps ns (bumpn (sumn ms) ns2).
+  Proof.
+    intros L2 ns nsf ns2 ms Hgo Hen Hi Hd K. eapply MS_trans; [apply Hgo|].
+    eapply MS_trans; [specialize (Hen [] (UnwE ms K)); rewrite app_nil_r in Hen; exact Hen|].
+    apply MS_unwind0; assumption.
+  Qed.
+  Lemma Exits_after : forall L2 ns nsf ns2 ms xcbs,
+      (forall K, MS (ns, [] :: K) (nsf, L2 :: UnwE ms K)) ->
+      Enters L2 nsf ns2 true xcbs -> Exits ns ns2 xcbs.
+  Proof.
+    intros L2 ns nsf ns2 ms xcbs Hgo (ms2 & m2 & Hk2). exists (ms2 ++ m2 :: ms). intro K. eapply MS_trans; [apply Hgo|].
+    specialize (Hk2 [] (UnwE ms K)). rewrite app_nil_r, UnwE_nest in Hk2. exact Hk2.
+  Qed.
+
   (* =========================================================================== *)
   (* starting a component                                                         *)
   (* =========================================================================== *)
@@ -932,6 +1030,16 @@ Section Sim.
     eapply Forall_impl; [|exact K2]. intros kv (i & E & Hi). exists i. split; [exact E|].
     pose proof (gr_sid _ _ _ G1). pose proof (gr_sid _ _ _ Hgr). lia.
   Qed.
+
+  Lemma StartRes_bumpn : forall j ns ns' g g' pend ids p da,
+      StartRes ns ns' g g' pend ids p da -> StartRes ns (bumpn j ns') g g' pend ids p da.
+  Proof.
+    intros j ns ns' g g' pend ids p da (I & G & A & W & S & D). split; [apply Inv_bumpn; exact I|].
+    split; [apply GR_bumpn; exact G|]. split; [exact A|]. split; [exact W|]. split; [exact S|exact D].
+  Qed.
+  Lemma StartRes_if : forall (d : bool) j ns ns' g g' pend ids p da,
+      StartRes ns ns' g g' pend ids p da -> StartRes ns (if d then ns' else bumpn j ns') g g' pend ids p da.
+  Proof. intros [] j ns ns' g g' pend ids p da H; [exact H|apply StartRes_bumpn; exact H]. Qed.
 
   Lemma StartRes_widen : forall ns ns' g g' pend ids p da p1 da1,
       StartRes ns ns' g g' pend ids p1 da1 -> pa p <= pa p1 -> pa p1 + da1 <= pa p + da ->
@@ -995,39 +1103,249 @@ Section Sim.
                      StartRes ns ns' g g' pend (svc_ids st) p (napis s) /\
                      (act N0 ns' st s p ctx /\ C0 ns' (rch st s p kl)).
 
-  Lemma start_svc_case : forall f n at_ ins p ctx cid ie kl rt xcbs g st g' ns m pend,
+  Lemma del_svc_case : forall f ie n at_ ins p ctx cid xcbs t2 id' id g st' g' ns m pend pend0 finp,
+      deliver orc imm (S f) cid ie (XService n at_ ins) (RAwait id') id g = Ok (Some st', g') ->
+      (NC = true -> ie = []) -> NC || idxfree ins = true ->
+      wired N0 (XService n at_ ins) p ctx xcbs -> pp p + 3 <= nP -> pt p < nT ->
+      t2 < nT -> t2 <> pt p -> In (pp p + 2) (preN N0 t2) ->
+      Inv ns -> GR g ns pend -> remove_first (Nat.eqb id) pend = Some pend0 ->
+      act N0 ns (RAwait id') (XService n at_ ins) p ctx -> ctx_is ns ctx cid -> ctx < pa p ->
+      Marks ns m -> dict_get ident_eqb (ITest id) (ns_place_dict ns) = Some finp ->
+      (forall q, pp p <= q < pp p + 3 -> cnt m q = cnt [pp p] q + (if Nat.eqb q finp then 1 else 0)) ->
+      Hout (pp p) (pp p + 3) (pt p) (pt p + 1) t2 m ->
+      st' = RDone /\ pp p <= finp < pp p + 3 /\
+      exists tr ns' m',
+        nth_error (ns_trans N0) (pt p) = Some tr /\ (forall q, In q (tr_pre tr) -> In q m) /\
+        (forall j, j < nT -> j <> pt p -> dis m j) /\
+        RunList [CbSF (pa p)] (fire_ns tr ns) ns' /\
+        Marks ns' m' /\ agrees_in (pp p) (pp p + 3) m' [pp p + 2] /\ agrees_out (pp p) (pp p + 3) m m' /\
+        Post ns ns' g g' pend0 (pa p) (pa p + 1) /\ ns_counters ns' = ns_counters ns.
+  Proof.
+    intros f ie n at_ ins p ctx cid xcbs t2 id' id g st' g' ns m pend pend0 finp
+           H Hie Hidx Hw HP HT Ht2 Hne2 Hx2 Hinv Hgr Hrem Hact Hctx Hlt Hm Hd Hin Hout.
+    cbn [deliver] in H. destruct (Nat.eqb_spec id id') as [<-|Hneq]; [|discriminate H].
+    unfold bind in H. unfold emit in H.
+    rewrite emit_gen_eq in H.
+    unfold ret in H. injection H as E1 E2. subst st'.
+    cbn [act] in Hact. destruct Hact as ((il & Hapi) & Hdict & Hidlt).
+    assert (Hfin : finp = pp p + 1) by congruence. subst finp.
+    split; [reflexivity|]. split; [lia|].
+    cbn [wired] in Hw. destruct Hw as (Hpre & Hpost & _).
+    destruct (trans_exists (pt p) HT) as [tr Htr].
+    rewrite (nth_error_preN _ _ Htr) in Hpre. rewrite (nth_error_postN _ _ Htr) in Hpost.
+    set (m' := (pp p + 2) :: outside (pp p) (pp p + 3) m).
+    assert (Hen : forall q, In q (tr_pre tr) -> In q m).
+    { intros q Hq. rewrite Hpre in Hq. apply cnt_pos_in.
+      destruct Hq as [<-|[<-|[]]]; rewrite Hin by lia; cnt_cases. }
+    destruct (Marks_fire ns m tr m' Hm) as [Hm' Hlen'].
+    { intros x Hx. rewrite Hpost in Hx. destruct Hx as [<-|[]]. rewrite (iv_npl _ Hinv). unfold nP in HP. lia. }
+    { intro q. rewrite Hpre. destruct (Nat.eq_dec q (pp p)) as [->|N1]; [rewrite Hin by lia; cnt_cases|].
+      destruct (Nat.eq_dec q (pp p + 1)) as [->|N2]; [rewrite Hin by lia; cnt_cases|]. cnt_cases. }
+    { intro q. rewrite Hpre, Hpost. unfold m'.
+      destruct (inb (pp p) (pp p + 3) q) eqn:E.
+      - apply inb_spec in E. rewrite (Hin q E). cnt_cases.
+      - apply not_true_iff_false in E. rewrite inb_spec in E. cnt_cases. }
+    set (nsf := fire_ns tr ns) in *.
+    pose proof (Inv_fire ns tr Hinv Hlen') as Hinvf. pose proof (GR_fire g ns pend tr Hgr) as Hgrf.
+    set (a1 := with_uuid (ITest id) (svc_api il n at_ ins ctx (pa p))).
+    assert (Hapif : nth_error (ns_apis nsf) (pa p) = Some a1) by exact Hapi.
+    exists tr, (notified SF a1 false nsf), m'.
+    split; [exact Htr|]. split; [exact Hen|]. split.
+    { intros j Hj Hne. destruct (Nat.eq_dec j t2) as [->|Hn2].
+      - exists (pp p + 2). split; [exact Hx2|]. apply not_in_cnt. rewrite Hin by lia. cnt_cases.
+      - destruct (Hout j Hj ltac:(lia) Hn2) as (q & Q1 & _ & Q3). exists q. split; assumption. }
+    destruct (sim_fin SF (pa p) a1 (Some cid) false g g' nsf pend pend0 (or_introl eq_refl) Hinvf Hgrf Hapif)
+      as (Hcbs & Hinv' & Hgr' & Hpl & Hap & Hdi).
+    { cbn [octx_is a1 with_uuid svc_api a_ctx]. split; [exact Hctx|lia]. }
+    { exists id. split; [reflexivity|exact Hrem]. }
+    { rewrite <- E2. unfold g_step. cbn [a1 with_uuid svc_api a_name a_site a_uuid a_params ident_nat].
+      rewrite (subst_params_ok ie ins Hie Hidx). repeat split; reflexivity. }
+    split.
+    { eapply rl_cons; [apply RunCb_SF; [apply (proj1 (iv_ls _ Hinvf))|exact Hapif]|exact Hcbs|reflexivity|apply rl_nil]. }
+    split; [eapply Marks_places; [exact Hpl|exact Hm']|].
+    split; [intros q Hq; unfold m'; cnt_cases|].
+    split; [intros q Hq; unfold m'; cnt_cases|].
+    split; [|rewrite nf_counters; reflexivity].
+    split; [exact Hinv'|]. split.
+    - constructor; [intros k _; rewrite Hap; reflexivity|rewrite nf_sid; apply Nat.le_refl|].
+      exists []. split; [rewrite Hdi; reflexivity|constructor].
+    - exists []. split; [rewrite <- E2, app_nil_r; reflexivity|rewrite app_nil_r; exact Hgr'].
+  Qed.
+
+  Lemma existsb_EvF : forall id aw, existsb (event_eqb (EvFinish (ITest id))) (map EvF aw) = mem id aw.
+  Proof. induction aw as [|x r IH]; [reflexivity|]. cbn [map existsb mem EvF event_eqb ident_eqb]. rewrite IH. reflexivity. Qed.
+
+  Lemma Marks_has_place : forall ns m q, Inv ns -> Marks ns m -> q < nP -> has_place ns q = true.
+  Proof.
+    intros ns m q Hi Hm Hq. unfold has_place. destruct (proj1 Hm q) as [k0 Hk0]; [rewrite (iv_npl _ Hi); exact Hq|].
+    rewrite Hk0. reflexivity.
+  Qed.
+
+  (* Inv only looks at some components *)
+  Lemma Inv_eq : forall a b, Inv a ->
+      ns_trans b = ns_trans a -> ns_cbs b = ns_cbs a -> ns_test_ids b = ns_test_ids a -> ns_ls b = ns_ls a ->
+      ns_obs b = ns_obs a -> ns_counters b = ns_counters a ->
+      ns_start_place b = ns_start_place a -> ns_final_place b = ns_final_place a ->
+      List.length (ns_places b) = List.length (ns_places a) ->
+      ns_apis b = ns_apis a -> ns_place_dict b = ns_place_dict a -> ns_sid b = ns_sid a ->
+      (forall e, In e (ns_awaited b) -> In e (ns_awaited a)) -> (forall e, In e (ns_pending b) -> In e (ns_pending a)) -> Inv b.
+  Proof.
+    intros a b [I1 I2 I3 I4 I5 I6 I7 I8 I9 I10 I11] E1 E2 E3 E4 E5 E6 E7 E8 E9 E10 E11 E12 Haw Hpe.
+    constructor; rewrite ?E1, ?E2, ?E3, ?E4, ?E5, ?E6, ?E7, ?E8, ?E9, ?E10, ?E11, ?E12; try assumption.
+    destruct I4 as (A & B & C & D). split; [exact A|]. split; [exact B|].
+    split; [intros i Hi; apply C; apply Haw; exact Hi|intros i Hi; apply D; apply Hpe; exact Hi].
+  Qed.
+
+  Lemma start_svc_case : forall f n at_ ins p ctx cid ie kl rt xcbs t2 g st g' ns m pend,
       start_stmt orc imm (S f) cid ie (XService n at_ ins) g = Ok (st, g') ->
       sok NC rt (XService n at_ ins) = true -> CX ns ctx cid ie kl rt p ->
-      wired N0 (XService n at_ ins) p ctx xcbs ->
+      wired N0 (XService n at_ ins) p ctx xcbs -> no_parloop xcbs = true ->
+      pp p + 3 <= nP -> pt p + 1 <= nT -> t2 < nT -> t2 <> pt p -> In (pp p + 2) (preN N0 t2) ->
       Inv ns -> GR g ns pend -> ctx_is ns ctx cid -> ctx < pa p ->
       Marks ns m -> (forall q, in_p (XService n at_ ins) p q -> cnt m q = cnt (entries (XService n at_ ins) p) q) ->
+      Hout (pp p) (pp p + 3) (pt p) (pt p + 1) t2 m ->
       exists ns' m', Enters (startcbs (XService n at_ ins) p ctx) ns ns' (is_done st) xcbs /\
                      Marks ns' m' /\ agrees_in (pp p) (pp p + 3) m' (mlx st (XService n at_ ins) p) /\
                      agrees_out (pp p) (pp p + 3) m m' /\
                      StartRes ns ns' g g' pend (svc_ids st) p 1 /\
                      (act N0 ns' st (XService n at_ ins) p ctx /\ C0 ns' (rch st (XService n at_ ins) p kl)).
   Proof.
-    intros f n at_ ins p ctx cid ie kl rt xcbs g st g' ns m pend H Hsok Hcx Hw Hinv Hgr Hctx Hlt Hm Hin.
-    cbn [wired] in Hw. destruct Hw as (_ & _ & _ & (il & Hapi) & Hdict).
+    intros f n at_ ins p ctx cid ie kl rt xcbs t2 g st g' ns m pend H Hsok Hcx Hw Hnp HP HT Ht2 Hne2 Hx2 Hinv Hgr Hctx Hlt Hm Hin HO.
+    pose proof Hw as Hwall.
+    cbn [wired] in Hw. destruct Hw as (Wpre & Wpost & Wcbs & (il & Hapi) & Hdict).
     destruct (iv_ready _ Hinv _ _ Hapi) as (u & Ha & Hrd).
     destruct (Hrd eq_refl (pa p) eq_refl) as [Hd _]. rewrite Hdict in Hd.
-    destruct (sim_SS f ie il u n at_ ins ctx cid (pa p) (pp p + 1) g st g' ns pend H (cx_ie _ _ _ _ _ _ _ Hcx) Hsok Hinv Hgr Ha Hd Hctx ltac:(lia))
+    rewrite start_svc_unf in H.
+    destruct (ss_pfx cid ie n at_ ins g) as [[id g1]| | |] eqn:Ep; try discriminate H.
+    destruct (sim_SS ie il u n at_ ins ctx cid (pa p) (pp p + 1) g id g1 ns pend Ep (cx_ie _ _ _ _ _ _ _ Hcx) Hsok Hinv Hgr Ha Hd Hctx ltac:(lia))
       as (-> & Haw & Hsid & Hrun & Hcbs & Hinv' & Hgr' & Hpl & Hap & Hdi & Hcn).
-    eexists. exists m. cbn [is_done Enters mlx].
-    split; [apply Starts_RunList; eapply rl_cons; [exact Hrun|exact Hcbs|apply rl_nil]|].
-    split; [eapply Marks_places; [exact Hpl|exact Hm]|].
-    split; [intros q Hq; cbn [ml]; apply Hin; unfold in_p; cbn [nplaces]; exact Hq|].
-    split; [intros q _; reflexivity|].
-    cbn [svc_ids]. split.
-    - split; [exact Hinv'|]. split; [exact Hgr'|].
-      split; [intros k Hk; rewrite Hap; apply nth_error_upd_neq; lia|].
-      split; [exact Haw|]. split; [lia|].
-      exists [(ITest (g_sid g), pp p + 1)]. split; [rewrite Hdi; reflexivity|].
-      constructor; [|constructor]. exists (g_sid g). split; [reflexivity|]. rewrite (gr_sid _ _ _ Hgr). lia.
-    - split; [|cbn [rch]; apply (C0_same ns _ kl Hcn (cx_c0 _ _ _ _ _ _ _ Hcx))].
-      cbn [act]. split; [exists il; rewrite Hap, (nth_error_upd_eq _ _ _ _ _ Ha); reflexivity|].
-      split; [rewrite Hdi; cbn [dict_get ident_eqb]; rewrite Nat.eqb_refl; reflexivity|].
-      rewrite (gr_sid _ _ _ Hgr'), Hsid. lia.
+    set (a' := with_uuid (ITest (ns_sid ns)) (svc_api il n at_ ins ctx (pa p))) in *.
+    set (PRE := ss_st il (pa p) (pp p + 1) ns) in *.
+    set (nsN := notified SS a' false PRE) in *.
+    destruct (imm (g_ss g)) eqn:Ei.
+    2:{ (* the service waits *)
+      injection H as <- <-. specialize (Hrun eq_refl).
+      exists nsN, m. cbn [is_done Enters mlx].
+      split; [apply Starts_RunList; eapply rl_cons; [exact Hrun|exact Hcbs|reflexivity|apply rl_nil]|].
+      split; [eapply Marks_places; [exact Hpl|exact Hm]|].
+      split; [intros q Hq; cbn [ml]; apply Hin; unfold in_p; cbn [nplaces]; exact Hq|].
+      split; [intros q _; reflexivity|].
+      cbn [svc_ids]. split.
+      - split; [exact Hinv'|]. split; [exact Hgr'|].
+        split; [intros k Hk; rewrite Hap; apply nth_error_upd_neq; lia|].
+        split; [exact Haw|]. split; [lia|].
+        exists [(ITest (g_sid g), pp p + 1)]. split; [rewrite Hdi; reflexivity|].
+        constructor; [|constructor]. exists (g_sid g). split; [reflexivity|]. rewrite (gr_sid _ _ _ Hgr). lia.
+      - split; [|cbn [rch]; apply (C0_same ns _ kl Hcn (cx_c0 _ _ _ _ _ _ _ Hcx))].
+        cbn [act]. split; [exists il; rewrite Hap, (nth_error_upd_eq _ _ _ _ _ Ha); reflexivity|].
+        split; [rewrite Hdi; cbn [dict_get ident_eqb]; rewrite Nat.eqb_refl; reflexivity|].
+        rewrite (gr_sid _ _ _ Hgr'), Hsid. lia. }
+    (* the engine reports the service as finished from inside the started notification *)
+    assert (Him : IM = true) by (destruct IM; [reflexivity|rewrite (Him0 eq_refl) in Ei; discriminate Ei]).
+    destruct (iv_ls _ Hinv) as (Hlsok & Hlo & Hawb & Hpeb). destruct (Hlo Him) as [HL Hobs].
+    pose proof Hgr as [G1 G2 G3 G4 G5 G6 G7 G8 G9 G10].
+    set (sid := g_sid g) in *.
+    assert (Esid : ns_sid ns = sid) by exact G2.
+    (* the identifier is new *)
+    assert (Hfresh : ~ In sid (g_awaited g)).
+    { intro Hi. assert (Hi' : In (EvFinish (ITest sid)) (ns_awaited ns)) by (rewrite G8; apply in_map_iff; exists sid; split; [reflexivity|exact Hi]).
+      specialize (Hawb _ Hi'). lia. }
+    assert (Hnaw : existsb (event_eqb (EvFinish (ITest (ns_sid ns)))) (ns_awaited ns) = false).
+    { rewrite Esid, G8, existsb_EvF. destruct (mem sid (g_awaited g)) eqn:Em; [|reflexivity].
+      exfalso. apply Hfresh. clear -Em. induction (g_awaited g) as [|x r IH]; [discriminate Em|]. cbn [mem] in Em.
+      destruct (Nat.eqb_spec sid x); [left; congruence|right; apply IH; exact Em]. }
+    (* the reference side *)
+    unfold bind at 1 in H. unfold unawait at 1 in H. rewrite Haw, (remove_first_fresh _ _ Hfresh) in H.
+    unfold set_awaited at 1 in H. set (g2 := g1 <| g_awaited := g_awaited g |>) in *.
+    unfold bind, emit in H. rewrite emit_gen_eq in H. unfold ret in H. injection H as <- <-.
+    set (g' := g2 <| g_log := _ |>).
+    assert (Hdel : deliver orc imm 1 cid ie (XService n at_ ins) (RAwait sid) sid g2 = Ok (Some RDone, g')).
+    { cbn [deliver]. rewrite Nat.eqb_refl. unfold bind, emit. rewrite emit_gen_eq. reflexivity. }
+    (* the state in which the completion is sent *)
+    set (mid := imm_mid a' PRE).
+    assert (HLp : listeners_of SS (ns_ls PRE) = [0]) by (unfold PRE, ss_st; destruct il; exact HL).
+    assert (Hobsp : ns_obs PRE = []) by (unfold PRE, ss_st; destruct il; exact Hobs).
+    assert (EN : nsN = bump mid).
+    { unfold nsN, notified, notif_entries, reacted, mid, imm_mid, bump, pend_after. rewrite HLp, Hobsp. cbn [map app rev].
+      destruct PRE; reflexivity. }
+    set (s2 := placed (pp p + 1) (mid <| ns_awaited := ns_awaited ns |>)).
+    assert (Hlenp : pp p + 1 < List.length (ns_places (mid <| ns_awaited := ns_awaited ns |>))).
+    { change (ns_places (mid <| ns_awaited := ns_awaited ns |>)) with (ns_places PRE).
+      replace (ns_places PRE) with (ns_places ns) by (unfold PRE, ss_st; destruct il; reflexivity).
+      rewrite (iv_npl _ Hinv). fold nP. lia. }
+    assert (Inv2 : Inv s2).
+    { apply (Inv_eq nsN s2 Hinv'); rewrite ?EN; try reflexivity.
+      - unfold s2, placed. cbn [ns_places set]. rewrite upd_length. reflexivity.
+      - intros e He. change (ns_awaited s2) with (ns_awaited ns) in He.
+        change (ns_awaited (bump mid)) with (ns_awaited PRE).
+        replace (ns_awaited PRE) with (ns_awaited ns ++ [EvFinish (ITest (ns_sid ns))]) by (unfold PRE, ss_st; destruct il; reflexivity).
+        apply in_or_app. left. exact He.
+      - intros e He. exact He. }
+    assert (Gr2 : GR g2 s2 (pend ++ [sid])).
+    { rewrite EN in Hgr'. destruct Hgr' as [A1 A2 A3 A4 A5 A6 A7 A8 A9 A10]. constructor; try assumption. }
+    assert (Hapi2 : nth_error (ns_apis s2) (pa p) = Some a').
+    { change (ns_apis s2) with (ns_apis (bump mid)). rewrite <- EN, Hap, (nth_error_upd_eq _ _ _ _ _ Ha). unfold a'. rewrite Esid. reflexivity. }
+    assert (Hdi2 : ns_place_dict s2 = (ITest sid, pp p + 1) :: ns_place_dict ns).
+    { change (ns_place_dict s2) with (ns_place_dict (bump mid)). rewrite <- EN. exact Hdi. }
+    assert (Hact2 : act N0 s2 (RAwait sid) (XService n at_ ins) p ctx).
+    { cbn [act]. split; [exists il; unfold a' in Hapi2; rewrite Esid in Hapi2; exact Hapi2|]. split; [rewrite Hdi2; cbn [dict_get ident_eqb]; rewrite Nat.eqb_refl; reflexivity|].
+      change (ns_sid s2) with (ns_sid (bump mid)). rewrite <- EN, (gr_sid _ _ _ Hgr'), Hsid. lia. }
+    assert (Hctx2 : ctx_is s2 ctx cid).
+    { destruct Hctx as (ac & Hac & Huc). exists ac. split; [|exact Huc].
+      change (ns_apis s2) with (ns_apis (bump mid)). rewrite <- EN, Hap, nth_error_upd_neq by lia. exact Hac. }
+    assert (Mk2 : Marks s2 ((pp p + 1) :: m)).
+    { apply Marks_placed; [|exact Hlenp]. eapply Marks_places; [|exact Hm]. unfold PRE, ss_st; destruct il; reflexivity. }
+    assert (Hin2 : forall q, pp p <= q < pp p + 3 -> cnt ((pp p + 1) :: m) q = cnt [pp p] q + (if Nat.eqb q (pp p + 1) then 1 else 0)).
+    { intros q Hq. rewrite cnt_cons, (Hin q ltac:(unfold in_p; cbn [nplaces]; exact Hq)). cbn [entries].
+      rewrite (Nat.eqb_sym (pp p + 1) q). lia. }
+    assert (HO2 : Hout (pp p) (pp p + 3) (pt p) (pt p + 1) t2 ((pp p + 1) :: m)).
+    { apply (Hout_out _ _ _ _ _ m _ HO). intros q Hq. rewrite cnt_cons. destruct (Nat.eqb_spec (pp p + 1) q); [lia|reflexivity]. }
+    assert (Hrem : remove_first (Nat.eqb sid) (pend ++ [sid]) = Some pend).
+    { apply remove_first_fresh. intro Hi. assert (Hi' : In (ITest sid) (ns_pending ns)) by (rewrite G9; apply in_map; exact Hi).
+      specialize (Hpeb _ Hi'). lia. }
+    destruct (del_svc_case 0 ie n at_ ins p ctx cid xcbs t2 sid sid g2 RDone g' s2 ((pp p + 1) :: m) (pend ++ [sid]) pend (pp p + 1)
+                           Hdel (cx_ie _ _ _ _ _ _ _ Hcx) Hsok Hwall HP ltac:(lia) Ht2 Hne2 Hx2 Inv2 Gr2 Hrem Hact2 Hctx2 Hlt Mk2
+                           ltac:(rewrite Hdi2; cbn [dict_get ident_eqb]; rewrite Nat.eqb_refl; reflexivity) Hin2 HO2)
+      as (_ & _ & tr & nsD & m' & Htr & Hen & Hdis & Hrl & Mk' & Ai & Ao & (InvD & FrD & new & AwD & GrD) & HcnD).
+    assert (Enew : new = []).
+    { change (g_awaited g') with (g_awaited g2) in AwD.
+      rewrite <- (app_nil_r (g_awaited g2)) in AwD at 1. apply app_inv_head in AwD. symmetry. exact AwD. }
+    subst new. rewrite app_nil_r in GrD.
+    exists nsD, m'. cbn [is_done Enters mlx svc_ids xplace startcbs].
+    split.
+    { exists [], 1. intros rest K. rewrite UnwE_nil.
+      assert (Ecb2 : ns_cbs s2 = ns_cbs ns) by (unfold s2, mid, imm_mid, PRE, ss_st; destruct il; reflexivity).
+      eapply MS_trans; [apply (MS_pushb (CbSS (pa p)) rest K ns s2 Ecb2 eq_refl)|].
+      - intros s' Hev. destruct (eval_keeps tasks env s2 s' Hev) as (K1 & K2 & K3).
+        assert (Hex' : exists a'', nth_error (ns_apis s') (pa p) = Some a'').
+        { destruct (nth_error (ns_apis s') (pa p)) as [x|] eqn:Ex; [eexists; reflexivity|].
+          apply nth_error_None in Ex. assert (pa p < List.length (ns_apis s2)) by (apply nth_error_Some; rewrite Hapi2; discriminate). lia. }
+        pose proof (RunCb_SS_imm tasks env Henv (pa p) ns _ (pp p + 1) s' (iv_ti _ Hinv) HL Ha eq_refl) as Hr.
+        cbn [with_uuid a_uuid a_in_loop svc_api a_ctx] in Hr. apply Hr; clear Hr; try assumption.
+        + intros ci Hci. inversion Hci; subst ci. destruct Hctx as (ac & Hac & _). exists ac. exact Hac.
+        + intros ci Hci. inversion Hci; subst ci. lia.
+        + apply (inv_sub_ok ns (with_uuid u (svc_api il n at_ ins ctx (pa p))) Hinv Hsok).
+        + rewrite Himm, G3. exact Ei.
+        + apply (Marks_has_place ns m _ Hinv Hm). lia.
+        + rewrite K1. replace (ns_ls s2) with (ns_ls ns) by (unfold s2, mid, imm_mid, PRE, ss_st; destruct il; reflexivity). exact HL.
+        + rewrite K2. replace (ns_obs s2) with (ns_obs ns) by (unfold s2, mid, imm_mid, PRE, ss_st; destruct il; reflexivity). exact Hobs.
+      - eapply MS_trans; [apply (MS_fire1 s2 ((pp p + 1) :: m) (pt p) tr _ _ Inv2 Mk2 ltac:(lia) Htr Hen Hdis Wcbs Hnp)|].
+        change (CbSF (pa p) :: xcbs) with ([CbSF (pa p)] ++ xcbs). apply MS_list. exact Hrl. }
+    split; [exact Mk'|]. split; [exact Ai|].
+    split; [intros q Hq; rewrite (Ao q Hq), cnt_cons; destruct (Nat.eqb_spec (pp p + 1) q); [lia|reflexivity]|].
+    split.
+    - split; [exact InvD|]. split; [rewrite app_nil_r; exact GrD|].
+      split; [intros k Hk; rewrite (fr_apis _ _ _ _ FrD) by lia; change (ns_apis s2) with (ns_apis (bump mid)); rewrite <- EN, Hap; apply nth_error_upd_neq; lia|].
+      split; [rewrite app_nil_r; reflexivity|].
+      split; [change (g_sid g') with (g_sid g1); lia|].
+      destruct (fr_dict _ _ _ _ FrD) as (d & Hd' & Hk'). exists (d ++ [(ITest sid, pp p + 1)]).
+      split; [rewrite Hd', Hdi2, <- app_assoc; reflexivity|].
+      apply Forall_app. split.
+      + eapply Forall_impl; [|exact Hk']. intros kv (i & E & Hi). exists i. split; [exact E|].
+        change (ns_sid s2) with (ns_sid (bump mid)) in Hi. rewrite <- EN, (gr_sid _ _ _ Hgr'), Hsid in Hi. lia.
+      + constructor; [|constructor]. exists sid. split; [reflexivity|lia].
+    - split; [exact I|]. cbn [rch]. unfold C0, counters_of. rewrite HcnD.
+      change (ns_counters s2) with (ns_counters (bump mid)). rewrite <- EN, Hcn. exact (cx_c0 _ _ _ _ _ _ _ Hcx).
   Qed.
 
   (* the surroundings of statement i of a block: the transition that follows it and what blocks
@@ -1097,8 +1415,6 @@ Section Sim.
   Lemma is_done_RDone : forall st, is_done st = true -> st = RDone.
   Proof. intros st H. destruct st; try discriminate H. reflexivity. Qed.
 
-  Lemma Unw_nest : forall k2 k (X : list (list cb)), Unw k2 ([] :: Unw k X) = Unw (k2 + S k) X.
-  Proof. intros k2 k X. change ([] :: Unw k X) with (Unw (S k) X). apply Unw_add. Qed.
 
   Lemma run_block_S : forall f cid ie l i,
       run_block orc imm (S f) cid ie l i =
@@ -1195,25 +1511,24 @@ Section Sim.
                       H En' Hf Hsok Hcxf Hw Hnp HP HT Ht2 Hnt2 Hx2 Invf Grf Hctxf Hlt Mkf Hin'' (Hout_out _ _ _ _ _ _ _ HO Hout''))
           as (ns2 & m2 & Hen2 & Mk2 & Ai2 & Ao2 & Hres2 & Hact2). fold pj in Hen2.
         pose proof Hres2 as (Inv2 & Gr2 & Ap2 & Aw2 & Sid2 & Di2).
-        destruct Hen1 as [k Hk].
-        assert (Hgo : forall rest K, MS (ns, (startcbs s pi ctx ++ rest) :: K) (nsf, startcbs s' pj ctx :: Unw k (rest :: K))).
+        destruct Hen1 as (ms & mm & Hk).
+        assert (Hgo : forall rest K, MS (ns, (startcbs s pi ctx ++ rest) :: K) (nsf, startcbs s' pj ctx :: UnwE ms ((marks mm ++ rest) :: K))).
         { intros rest K. eapply MS_trans; [apply Hk|].
           apply (MS_fire1 ns1 m1 c trc _ _ Inv1 Mk1 HcT Htrc Henc Hdisc C3 (no_parloop_startcbs _ _ _)). }
-        exists ns2, m2. split; [|split; [exact Mk2|split; [exact Ai2|split; [|split; [|exact Hact2]]]]].
-        * destruct r as [[j st']|]; cbn [is_none Enters] in *.
-          -- intros rest K. eapply MS_trans; [apply Hgo|].
-             eapply MS_trans; [specialize (Hen2 [] (Unw k (rest :: K))); rewrite app_nil_r in Hen2; exact Hen2|].
-             change ([] :: Unw k (rest :: K)) with (Unw (S k) (rest :: K)).
-             apply MS_unwind; [exact Inv2|]. apply (dis_dead ns2 m2 Inv2 Mk2).
-             apply (block_dis l bp ctx xcbs t2 j st' ns2 m m2 Hf Hw Hx2 HO); [|exact Ai2|exact (proj1 Hact2)].
-             intros q Hq. rewrite (Ao2 q Hq). apply Hout''. exact Hq.
-          -- destruct Hen2 as [k2 Hk2]. exists (k2 + S k). intros rest K. eapply MS_trans; [apply Hgo|].
-             specialize (Hk2 [] (Unw k (rest :: K))). rewrite app_nil_r, Unw_nest in Hk2. exact Hk2.
+        assert (Hd2 : is_none r = false -> dead ns2).
+        { intro Hr. destruct r as [[j st']|]; [|discriminate Hr]. cbn [actb] in Hact2.
+          apply (dis_dead ns2 m2 Inv2 Mk2).
+          apply (block_dis l bp ctx xcbs t2 j st' ns2 m m2 Hf Hw Hx2 HO); [|exact Ai2|exact (proj1 Hact2)].
+          intros q Hq. rewrite (Ao2 q Hq). apply Hout''. exact Hq. }
+        pose proof (Enters_after (is_none r) _ _ ns nsf ns2 ms mm xcbs Hgo Hen2 Inv2 Hd2) as HenF.
+        exists (if is_none r then ns2 else bumpn (mm + sumn ms) ns2), m2.
+        split; [exact HenF|]. split; [destruct (is_none r); exact Mk2|]. split; [exact Ai2|]. split; [|split].
         * intros q Hq. rewrite (Ao2 q Hq). apply Hout''. exact Hq.
-        * apply StartRes_fire in Hres2.
+        * apply StartRes_if. apply StartRes_fire in Hres2.
           assert (E0 : ids_opt r = [] ++ ids_opt r) by reflexivity. rewrite E0.
           eapply (StartRes_trans ns ns1 ns2 g g1 g' pend [] (ids_opt r) bp (napis_l l) pi (napis s) bp (napis_l l));
             [exact Hgr|exact Hres1|rewrite app_nil_r; exact Hres2|lia|lia|lia|lia].
+        * destruct (is_none r); exact Hact2.
       + (* it was the last statement: the block is complete *)
         assert (Elast : Nat.eqb (S i) (List.length l) = true).
         { apply Nat.eqb_eq. apply nth_error_None in En'. assert (i < List.length l) by (apply nth_error_Some; congruence). lia. }
@@ -1373,10 +1688,10 @@ Section Sim.
             apply not_in_cnt. intro Hi. destruct (ml_range N0 ns1 st b q ctx Hfb Hact1 _ Hi) as [_ Hne]. congruence.
           - destruct (Hsync eq_refl) as (x & X1 & X2 & X3). exists x. split; [exact X1|]. split; [lia|].
             apply not_in_cnt. rewrite (Ao1 x ltac:(lia)). apply not_in_cnt. exact X3. }
-        assert (Hst : Starts (startcbs b q ctx) ns ns1).
-        { destruct (is_done st) eqn:D; [|exact Hen1]. destruct Hen1 as [k Hk]. intros rest K.
-          eapply MS_trans; [apply Hk|]. change ([] :: Unw k (rest :: K)) with (Unw (S k) (rest :: K)).
-          apply MS_unwind; [exact Hinv1|]. apply (dis_dead ns1 m1 Hinv1 Mk1). intros j Hj.
+        assert (Hst : exists jj, Starts (startcbs b q ctx) ns (bumpn jj ns1)).
+        { destruct (is_done st) eqn:D; [|exists 0; rewrite (Mach.bumpn_0); exact Hen1]. destruct Hen1 as (ms & mm & Hk). exists (mm + sumn ms). intros rest K.
+          eapply MS_trans; [apply Hk|]. eapply MS_trans; [apply MS_unwind|eapply MS_trans; [apply MS_marks|rewrite Mach.bumpn_add; apply MS_refl]]; [exact Hinv1|].
+          apply (dis_dead ns1 m1 Hinv1 Mk1). intros j Hj.
           destruct (Nat.eq_dec j sync) as [->|Hne].
           - (* the sync waits for a branch *)
             destruct r as [|b' r'].
@@ -1393,6 +1708,16 @@ Section Sim.
             + destruct (Hlater j ltac:(lia)) as (x & X1 & X2 & X3). exists x. split; [exact X1|].
               apply not_in_cnt. rewrite (Ao1 x ltac:(lia)). exact X3.
             + destruct (Hout1 j Hj ltac:(lia) Hne) as (x & X1 & X2 & X3). exists x. split; assumption. }
+        destruct Hst as [jj Hst].
+        assert (T : Inv (bumpn jj ns1) /\ GR g1 (bumpn jj ns1) (pend ++ svc_ids st) /\ ctx_is (bumpn jj ns1) ctx cid /\
+                    Marks (bumpn jj ns1) m1 /\ CX (bumpn jj ns1) ctx cid ie kl rt q1 /\
+                    StartRes ns (bumpn jj ns1) g g1 pend (svc_ids st) q (napis b) /\ act N0 (bumpn jj ns1) st b q ctx).
+        { split; [apply Inv_bumpn; exact Hinv1|]. split; [apply GR_bumpn; exact Hgr1|]. split; [exact Hctx1|]. split; [exact Mk1|].
+          split; [destruct Hcx1 as [X1 X2 X3]; constructor; [exact X1|exact X2|exact X3]|]. split; [apply StartRes_bumpn; exact Hres1|exact Hact1]. }
+        clear Hinv1 Hgr1 Hctx1 Mk1 Hcx1 Hres1 Hact1 Hap1 Haw1 Hsid1 Hd1 Hen1 Hc1.
+        rename ns1 into ns1o. set (ns1 := bumpn jj ns1o) in *.
+        destruct T as (Hinv1 & Hgr1 & Hctx1 & Mk1 & Hcx1 & Hres1 & Hact1).
+        pose proof Hres1 as (_ & _ & Hap1 & Haw1 & Hsid1 & Hd1).
         destruct (IH f ltac:(intros f0 Hf0; apply HS; lia) q1 ctx cid ie kl rt sync (pre_done && is_done st) g1 sts1 g2 ns1 m1 (pend ++ svc_ids st) E2 Hfr' Hsokr Hcx1 Wr
                      ltac:(lia) ltac:(lia) Hsy ltac:(lia) ltac:(intros k b' Hb'; apply (Hxs (S k) b' Hb')) Hinv1 Hgr1 Hctx1
                      ltac:(lia) Mk1 Hin1 Hout1 Hsync1)
@@ -1588,7 +1913,7 @@ Section Sim.
     destruct r as [[j st0]|]; cbn [is_none mlb actb ids_opt] in *.
     - (* the body waits *)
       mstep. exists ns2, m2. cbn [is_done mlx svc_ids]. cbn [Enters].
-      split; [eapply Starts_cons; [exact Hrun|exact Hcbs|exact Hen2]|].
+      split; [eapply Starts_cons; [exact Hrun|exact Hcbs|reflexivity|exact Hen2]|].
       split; [exact Mk2|]. split; [rewrite ml_call; exact Ai2|]. split; [exact Ao2|]. split; [exact Hres12|].
       split; [|rewrite rch_call; exact Hc2].
       rewrite act_call. fold bp. split; [|exact Hact2].
@@ -1608,10 +1933,10 @@ Section Sim.
         rewrite Hsub. repeat split; reflexivity. }
       set (ns3 := notified TF a1 false ns2) in *.
       assert (Hr3 : RunCb tasks env (CbTF (pa p)) ns2 ns3).
-      { pose proof (RunCb_TF (pa p) ns2 a1 (iv_ls _ Hinv2) Hapi2) as Hr.
+      { pose proof (RunCb_TF (pa p) ns2 a1 (proj1 (iv_ls _ Hinv2)) Hapi2) as Hr.
         unfold a1 in Hr. cbn [with_uuid call_api a_name] in Hr. rewrite Hname in Hr. exact Hr. }
       exists ns3, m2. cbn [is_done mlx svc_ids xplace].
-      split; [eapply Enters_cons; [exact Hrun|exact Hcbs|]; eapply Enters_cb; [exact Hen2|exact Hr3|exact Hcbs3]|].
+      split; [eapply Enters_cons; [exact Hrun|exact Hcbs|reflexivity|]; eapply Enters_cb; [exact Hen2|exact Hr3|exact Hcbs3|reflexivity]|].
       split; [eapply Marks_places; [exact Pl3|exact Mk2]|]. split; [exact Ai2|]. split; [exact Ao2|].
       split; [|split; [exact I|cbn [rch]; unfold ns3; apply (C0_same ns2 _ kl (nf_counters _ _ _ _) Hc2)]].
       destruct Hres12 as (_ & _ & A12 & W12 & S12 & D12).
@@ -1685,7 +2010,7 @@ Section Sim.
       destruct (par_exit bs p ctx xcbs sts ns' m m' Hfb Hwall Hnp ltac:(lia) ltac:(lia) Hact Had Houtl Hpfin Inv' Mk Ai Ao)
         as (tr & Hms & Mkf & Invf & Aif & Aof). cbv zeta in Hms, Mkf, Invf, Aif, Aof.
       eexists. eexists. split; [|split; [exact Mkf|split; [exact Aif|split; [exact Aof|split; [|split; [exact I|exact Hc']]]]]].
-      + destruct Hen as [k Hk]. exists k. intros rest K. eapply MS_trans; [apply Hk|apply Hms].
+      + destruct Hen as (ms & mm & Hk). exists ms, mm. intros rest K. eapply MS_trans; [apply Hk|apply Hms].
       + rewrite (ids_list_all_done _ Had) in Hres. apply StartRes_fired; [exact Hres|]. rewrite (iv_npl _ Invf), (iv_npl _ Inv'). reflexivity.
     - (* some branch waits *)
       unfold ret in H. injection H as Hs Hg. subst st g1. cbn [is_done mlx svc_ids Enters] in *.
@@ -1797,11 +2122,6 @@ Section Sim.
     apply (block_exit B cb sb (PL + 3) PL PH xcbs ctx nsa m m'); try assumption. lia.
   Qed.
 
-  Lemma Marks_has_place : forall ns m q, Inv ns -> Marks ns m -> q < nP -> has_place ns q = true.
-  Proof.
-    intros ns m q Hi Hm Hq. unfold has_place. destruct (proj1 Hm q) as [k0 Hk0]; [rewrite (iv_npl _ Hi); exact Hq|].
-    rewrite Hk0. reflexivity.
-  Qed.
 
   Lemma start_branch : forall f, (forall f0, f0 < S f -> StartOK f0) ->
       forall cbk ep pb xs scbs B cb fb sb PL PH TL TH AL AH ctx cid ie kl rt t2 s1 g g1 r g' ns m pend,
@@ -1812,6 +2132,7 @@ Section Sim.
         TL <= fb < TL + 2 -> TL + 2 <= sb < TH -> ~ in_tb B cb sb ->
         preN N0 fb = [ep; pb] -> postN N0 fb = entries_b B cb -> cbsN N0 fb = startcbs_b B cb ctx ->
         preN N0 sb = [xplace_b B cb] -> postN N0 sb = [xs] -> cbsN N0 sb = scbs -> no_parloop scbs = true ->
+        is_parloop_cb cbk = false ->
         (forall j, TL <= j < TH -> ~ in_tb B cb j -> j <> sb -> j <> fb ->
                    exists q, In q (preN N0 j) /\ PL <= q < PH /\ ~ in_pb B cb q /\ q <> pb /\ q <> ep) ->
         PH <= nP -> TH <= nT -> t2 < nT -> ~ (TL <= t2 < TH) -> In (PL + 3) (preN N0 t2) ->
@@ -1828,7 +2149,7 @@ Section Sim.
         exists ns' m',
           match r with
           | Some _ => Starts [cbk] ns ns'
-          | None => exists k, forall rest K, MS (ns, (cbk :: rest) :: K) (ns', scbs :: Unw k (rest :: K))
+          | None => exists ms mm, forall rest K, MS (ns, (cbk :: rest) :: K) (ns', scbs :: UnwE ms ((marks mm ++ rest) :: K))
           end /\
           Marks ns' m' /\
           agrees_in PL PH m' (match r with None => [xs] | Some (j, st0) => ml_block B cb j st0 end) /\
@@ -1841,7 +2162,7 @@ Section Sim.
           (actb ns' B cb ctx r /\ C0 ns' (rchb B cb r kl)).
   Proof.
     intros f IHf cbk ep pb xs scbs B cb fb sb PL PH TL TH AL AH ctx cid ie kl rt t2 s1 g g1 r g' ns m pend Hep Hpb Hepb Hxs
-           HfB HsokB WB R1 R2 R3 R4 R5 R6 Hfb Hsb Hnsb Pfb Qfb Cfb Psb Qsb Csb Hnp Hoth HP HT Ht2 Hnt2 Hx2
+           HfB HsokB WB R1 R2 R3 R4 R5 R6 Hfb Hsb Hnsb Pfb Qfb Cfb Psb Qsb Csb Hnp Hcbk Hoth HP HT Ht2 Hnt2 Hx2
            Hinv Hgr Hctx Hlt Hm Hin HO Inv1 Gr1 Hcx1 Epl Eap Edi Esid Ecb Hopen (T1 & T2 & T3 & T4 & T5 & T6 & T7) E2.
     pose proof Hctx as (ac & Hac & Huc).
     assert (Hlenp : pb < List.length (ns_places s1)).
@@ -1855,7 +2176,7 @@ Section Sim.
     assert (Gr2 : GR g1 s2 pend) by (destruct Gr1; constructor; assumption).
     (* the callback opens an evaluation in s2 *)
     assert (Hpush : forall rest K, MS (ns, (cbk :: rest) :: K) (s2, [] :: rest :: K)).
-    { intros rest K. apply MS_push; [exact Ecb|]. intros s' Hev. apply (Hopen s' Hev). }
+    { intros rest K. apply MS_push; [exact Ecb|exact Hcbk|]. intros s' Hev. apply (Hopen s' Hev). }
     (* the first transition of the chosen branch *)
     assert (HfbT : fb < nT) by lia.
     destruct (trans_exists fb HfbT) as [trf Htrf].
@@ -1954,14 +2275,16 @@ Section Sim.
     pose proof Hres4 as (Inv4 & Gr4 & Ap4 & Aw4 & Sid4 & Di4).
     change (ns_apis nsf) with (ns_apis s1) in Ap4. rewrite Eap in Ap4.
     change (ns_place_dict nsf) with (ns_place_dict s1) in Di4. change (ns_sid nsf) with (ns_sid s1) in Di4. rewrite Edi, Esid in Di4.
+    assert (Hgo : forall rest K, MS (ns, ([cbk] ++ rest) :: K) (nsf, startcbs s0 p0' ctx :: UnwE [] ((marks 0 ++ rest) :: K))).
+    { intros rest K. cbn [app]. eapply MS_trans; [apply Hpush|]. apply Hfire. }
+    assert (Hd4 : is_none r = false -> dead ns4).
+    { intro Hr. destruct r as [[j st0]|]; [|discriminate Hr]. cbn [actb] in Hact4. apply (dis_dead ns4 m4 Inv4 Mk4).
+      apply (block_dis B cb ctx [] sb j st0 ns4 m3 m4 HfB WB ltac:(rewrite Psb; left; reflexivity) HoutB Ao4 Ai4 Hact4). }
+    pose proof (Enters_after (is_none r) [cbk] _ ns nsf ns4 [] 0 [] Hgo Hen4 Inv4 Hd4) as HenF.
+    change (0 + sumn []) with 0 in HenF. rewrite Mach.bumpn_0 in HenF.
     destruct r as [[j st0]|]; cbn [is_none mlb actb ids_opt Enters] in *.
     - (* the branch waits: the evaluation that the callback opened ends *)
-      exists ns4, m4. split.
-      { intros rest K. cbn [app]. eapply MS_trans; [apply Hpush|]. eapply MS_trans; [apply Hfire|].
-        eapply MS_trans; [specialize (Hen4 [] (rest :: K)); rewrite app_nil_r in Hen4; exact Hen4|].
-        change ([] :: rest :: K) with (Unw 1 (rest :: K)). apply MS_unwind; [exact Inv4|].
-        apply (dis_dead ns4 m4 Inv4 Mk4).
-        apply (block_dis B cb ctx [] sb j st0 ns4 m3 m4 HfB WB ltac:(rewrite Psb; left; reflexivity) HoutB Ao4 Ai4 Hact4). }
+      exists ns4, m4. split; [exact HenF|].
       split; [exact Mk4|]. split.
       { eapply (agrees_in_widen (pp cb) (pp cb + nplaces_l B) PL PH m3 m4); [exact Ai4|exact Ao4|lia|lia|].
         intros q Hq Hnq. split; [apply Hz3; [exact Hq|exact Hnq]|].
@@ -1975,9 +2298,7 @@ Section Sim.
       destruct (block_exit B cb sb xs PL PH scbs ctx ns4 m3 m4 HfB WB R1 R2 HP ltac:(lia) Hxs Psb Qsb Csb Hnp HoutB Hz3 Inv4 Mk4 Ai4 Ao4)
         as (trs & Hms & Mk5 & Inv5 & Ai5 & Ao5). cbv zeta in Hms, Mk5, Inv5, Ai5, Ao5.
       eexists. eexists. split.
-      { destruct Hen4 as [k Hk]. exists (S k). intros rest K. cbn [app]. eapply MS_trans; [apply Hpush|]. eapply MS_trans; [apply Hfire|].
-        eapply MS_trans; [specialize (Hk [] (rest :: K)); rewrite app_nil_r in Hk; exact Hk|].
-        rewrite Unw_S'. apply Hms. }
+      { destruct HenF as (ms & mm & Hk). exists ms, mm. intros rest K. eapply MS_trans; [apply (Hk rest K)|]. apply Hms. }
       split; [exact Mk5|]. split; [exact Ai5|].
       split; [intros q Hq; rewrite (Ao5 q Hq); apply Hm3_out; exact Hq|].
       split; [exact Inv5|]. split; [apply GR_fire; exact Gr4|].
@@ -2057,7 +2378,7 @@ Section Sim.
     { destruct Hcx as [X1 X2 X3]. constructor; [exact X1|exact X2|exact X3]. }
     destruct (start_branch f IHf (CbCond e PL (PL + 1) ctx) (PL + 2) pb (PL + 3) xcbs B cb fb sb PL PH TL TH AL AH ctx cid ie kl rt t2
                            (cond_pre e (ident_nat (a_uuid ac)) q' ns) g g1 r g' ns m pend
-                           ltac:(lia) ltac:(lia) ltac:(lia) ltac:(lia) HfB HsokB WB R1 R2 R3 R4 R5 R6 Hfb Hsb Hnsb Pfb Qfb Cfb Psb Qsb Csb Hnp Hoth
+                           ltac:(lia) ltac:(lia) ltac:(lia) ltac:(lia) HfB HsokB WB R1 R2 R3 R4 R5 R6 Hfb Hsb Hnsb Pfb Qfb Cfb Psb Qsb Csb Hnp eq_refl Hoth
                            HP HT Ht2 Hnt2 Hx2 Hinv Hgr Hctx Hlt Hm Hin HO Inv1 Gr1 Hcx1 eq_refl eq_refl eq_refl eq_refl eq_refl Hopen Hsame E2)
       as (ns' & m' & Hen & Rest).
     exists ns', m'. split; [|exact Rest]. destruct r as [[j st0]|]; exact Hen.
@@ -2112,7 +2433,7 @@ Section Sim.
       unfold s2, placed. cbn [ns_places set]. rewrite upd_length. exact I8. }
     assert (Gr2 : GR g1 s2 pend) by (destruct Gr1; constructor; assumption).
     assert (Hpush : forall rest K, MS (ns, (CbCond e PL (PL + 1) ctx :: rest) :: K) (s2, [] :: rest :: K)).
-    { intros rest K. apply MS_push; [reflexivity|]. intros s' Hev.
+    { intros rest K. apply MS_push; [reflexivity|reflexivity|]. intros s' Hev.
       apply (RunCb_Cond tasks env e PL (PL + 1) ctx ns ac false q' s' Hac).
       - rewrite Horc, (gr_q _ _ _ Hgr). exact Hdec.
       - rewrite (gr_aw _ _ _ Hgr). apply no_setplace_awaited.
@@ -2164,7 +2485,7 @@ Section Sim.
       - exact W6.
       - exact Hnp. }
     exists nsf, m3. split.
-    { exists 0. intros rest K. cbn [app]. eapply MS_trans; [apply Hpush|]. apply Hfire. }
+    { exists [], 0. intros rest K. cbn [app]. eapply MS_trans; [apply Hpush|]. apply Hfire. }
     split; [exact Mkf|].
     split; [intros q Hq; unfold m3; cnt_cases|].
     split; [intros q Hq; unfold m3; cnt_cases|].
@@ -2181,6 +2502,7 @@ Section Sim.
   Proof. intros v l P p ctx xcbs Hw. cbn [wired] in Hw. destruct Hw as (W1 & W2 & W3 & W4 & W5 & W6 & W7 & W8 & W9 & WP). repeat split; assumption. Qed.
 
   Lemma loop_else : forall cbk s1 P p ctx cid xcbs t2 g1 ns m pend,
+      is_parloop_cb cbk = false ->
       frag_block P = true -> loop_wired P p ctx xcbs -> no_parloop xcbs = true ->
       pp p + (4 + nplaces_l P) <= nP -> pt p + (3 + ntrans_b P) <= nT ->
       t2 < nT -> ~ (pt p <= t2 < pt p + (3 + ntrans_b P)) -> In (pp p + 3) (preN N0 t2) ->
@@ -2198,7 +2520,7 @@ Section Sim.
         Inv ns' /\ GR g1 ns' pend /\ ns_apis ns' = ns_apis ns /\ ns_place_dict ns' = ns_place_dict ns /\
         ns_sid ns' = ns_sid ns /\ ns_counters ns' = ns_counters s1.
   Proof.
-    intros cbk s1 P p ctx cid xcbs t2 g1 ns m pend HfP Hw Hnp HP HT Ht2 Hnt2 Hx2 Hinv Hctx Hm Hin HO
+    intros cbk s1 P p ctx cid xcbs t2 g1 ns m pend Hcbk HfP Hw Hnp HP HT Ht2 Hnt2 Hx2 Hinv Hctx Hm Hin HO
            Inv1 Gr1 Epl Eap Edi Esid Ecb Hopen.
     destruct Hw as (W1 & W4 & W5 & W6 & W7 & WP).
     set (PL := pp p) in *. set (PH := pp p + (4 + nplaces_l P)) in *.
@@ -2213,7 +2535,7 @@ Section Sim.
       unfold s2, placed. cbn [ns_places set]. rewrite upd_length. exact I8. }
     assert (Gr2 : GR g1 s2 pend) by (destruct Gr1; constructor; assumption).
     assert (Hpush : forall rest K, MS (ns, (cbk :: rest) :: K) (s2, [] :: rest :: K)).
-    { intros rest K. apply MS_push; [exact Ecb|]. intros s' Hev. apply Hopen. exact Hev. }
+    { intros rest K. apply MS_push; [exact Ecb|exact Hcbk|]. intros s' Hev. apply Hopen. exact Hev. }
     (* the condition-failed transition *)
     assert (HffT : pt p + 1 < nT) by lia.
     destruct (trans_exists (pt p + 1) HffT) as [trf Htrf].
@@ -2259,7 +2581,7 @@ Section Sim.
       - exact W6.
       - exact Hnp. }
     exists nsf, m3. split.
-    { exists 0. intros rest K. cbn [app]. eapply MS_trans; [apply Hpush|]. apply Hfire. }
+    { exists [], 0. intros rest K. cbn [app]. eapply MS_trans; [apply Hpush|]. apply Hfire. }
     split; [exact Mkf|].
     split; [intros q Hq; unfold m3; cnt_cases|].
     split; [intros q Hq; unfold m3; cnt_cases|].
@@ -2449,7 +2771,7 @@ Section Sim.
                              ltac:(lia) ltac:(lia) ltac:(lia) ltac:(lia) HfB HsB WB
                              ltac:(cbn [loop_p pp]; lia) ltac:(cbn [loop_p pp]; lia) ltac:(cbn [loop_p pt]; lia)
                              ltac:(cbn [loop_p pt]; lia) ltac:(cbn [loop_p pa]; lia) ltac:(cbn [loop_p pa]; lia)
-                             ltac:(lia) ltac:(lia) ltac:(unfold in_tb; cbn [loop_p pt]; lia) W1 W2 W3 W7 W8 W9 eq_refl)
+                             ltac:(lia) ltac:(lia) ltac:(unfold in_tb; cbn [loop_p pt]; lia) W1 W2 W3 W7 W8 W9 eq_refl eq_refl)
         as (ns' & m' & Hen & Mk & Ai & Ao & Inv' & Gr' & Ap' & Aw' & Sid' & Di' & Hab & Hcb); try assumption; try reflexivity.
       { intros j Hj Hnj Hns Hnf. unfold in_tb in Hnj. cbn [loop_p pt] in Hnj.
         assert (j = pt p + 1) by lia. subst j.
@@ -2472,21 +2794,18 @@ Section Sim.
           try assumption; try lia.
         { exact (Hout_out _ _ _ _ _ _ _ HO Ao'). }
         rewrite ?nplaces_while, ?napis_while in *. cbn [startcbs] in Hen2. fold CW in Hen2.
-        destruct Hen as [kk Hkk].
+        destruct Hen as (kk & mm & Hkk).
         assert (Ao2' : agrees_out (pp p) (pp p + (4 + nplaces_l B)) m m'').
         { intros q Hq. rewrite (Ao2 q Hq). apply Ao'. exact Hq. }
         pose proof Hres2 as (Inv2 & _).
-        exists ns'', m''. split; [|split; [exact Mk2|split; [exact Ai2|split; [exact Ao2'|split; [|exact Hact2]]]]].
-        * destruct (is_done st) eqn:D; cbn [Enters] in *.
-          -- destruct Hen2 as [k2 Hk2]. exists (k2 + S kk). intros rest K. cbn [app]. eapply MS_trans; [apply Hkk|].
-             specialize (Hk2 [] (Unw kk (rest :: K))). cbn [app] in Hk2. rewrite Unw_nest in Hk2. exact Hk2.
-          -- intros rest K. cbn [app]. eapply MS_trans; [apply Hkk|].
-             eapply MS_trans; [specialize (Hen2 [] (Unw kk (rest :: K))); cbn [app] in Hen2; exact Hen2|].
-             change ([] :: Unw kk (rest :: K)) with (Unw (S kk) (rest :: K)).
-             apply MS_unwind; [exact Inv2|]. apply (dis_dead ns'' m'' Inv2 Mk2).
-             rewrite (mlx_nd _ _ _ D) in Ai2.
-             apply (stmt_dis (XWhile e B) p ctx xcbs t2 st ns'' m m'' Hf Hwall D Hx2all); rewrite ?nplaces_while, ?ntrans_while; try assumption. exact (proj1 Hact2).
-        * assert (E0 : svc_ids st = [] ++ svc_ids st) by reflexivity. rewrite E0.
+        assert (Hd2 : is_done st = false -> dead ns'').
+        { intro D. apply (dis_dead ns'' m'' Inv2 Mk2). rewrite (mlx_nd _ _ _ D) in Ai2.
+          apply (stmt_dis (XWhile e B) p ctx xcbs t2 st ns'' m m'' Hf Hwall D Hx2all); rewrite ?nplaces_while, ?ntrans_while; try assumption. exact (proj1 Hact2). }
+        pose proof (Enters_after (is_done st) [CW] [CW] ns ns' ns'' kk mm xcbs Hkk Hen2 Inv2 Hd2) as HenF.
+        exists (if is_done st then ns'' else bumpn (mm + sumn kk) ns''), m''.
+        split; [exact HenF|]. split; [destruct (is_done st); exact Mk2|]. split; [exact Ai2|]. split; [exact Ao2'|]. split; [|destruct (is_done st); exact Hact2].
+        apply StartRes_if.
+        assert (E0 : svc_ids st = [] ++ svc_ids st) by reflexivity. rewrite E0.
           eapply (StartRes_trans ns ns' ns'' g g2 g' pend [] (svc_ids st) p (napis_l B) p (napis_l B) p (napis_l B));
             [exact Hgr| |rewrite app_nil_r; exact Hres2|lia|lia|lia|lia].
           split; [exact Inv'|]. split; [rewrite app_nil_r; exact Gr'|]. split; [exact Ap'|].
@@ -2499,7 +2818,7 @@ Section Sim.
         - rewrite (gr_aw _ _ _ Hgr). apply no_setplace_awaited.
         - apply (Marks_has_place ns m _ Hinv Hm). lia.
         - exact Hev. }
-      destruct (loop_else CW s1 B p ctx cid xcbs t2 g1 ns m pend HfB (loop_wired_while _ _ _ _ _ Hwall) Hnp HP HT Ht2 Hnt2 Hx2 Hinv Hctx Hm Hin HO
+      destruct (loop_else CW s1 B p ctx cid xcbs t2 g1 ns m pend eq_refl HfB (loop_wired_while _ _ _ _ _ Hwall) Hnp HP HT Ht2 Hnt2 Hx2 Hinv Hctx Hm Hin HO
                           Inv1 Gr1 eq_refl eq_refl eq_refl eq_refl eq_refl Hopen) as (ns' & m' & Hen & Mk & Ai & Ao & Inv' & Gr' & Ea & Ed & Es & Ec).
       destruct Hsame as (T1 & T2 & T3 & T4 & T5 & T6 & T7).
       exists ns', m'. split; [exact Hen|]. split; [exact Mk|]. split; [exact Ai|]. split; [exact Ao|].
@@ -2564,10 +2883,11 @@ Section Sim.
       ns_trans ns' = ns_trans ns -> ns_cbs ns' = ns_cbs ns -> ns_test_ids ns' = ns_test_ids ns -> ns_ls ns' = ns_ls ns ->
       ns_start_place ns' = ns_start_place ns -> ns_final_place ns' = ns_final_place ns -> ns_places ns' = ns_places ns ->
       ns_apis ns' = ns_apis ns -> ns_place_dict ns' = ns_place_dict ns -> ns_sid ns' = ns_sid ns ->
+      ns_obs ns' = ns_obs ns -> ns_awaited ns' = ns_awaited ns -> ns_pending ns' = ns_pending ns ->
       cnts_plain (ns_counters ns') -> NC = false -> Inv ns'.
   Proof.
-    intros ns ns' [I1 I2 I3 I4 I5 I6 I7 I8 I9 I10 I11] E1 E2 E3 E4 E5 E6 E7 E8 E9 E10 Hp Hnc.
-    constructor; rewrite ?E1, ?E2, ?E3, ?E4, ?E5, ?E6, ?E7, ?E8, ?E9, ?E10; try assumption.
+    intros ns ns' [I1 I2 I3 I4 I5 I6 I7 I8 I9 I10 I11] E1 E2 E3 E4 E5 E6 E7 E8 E9 E10 E11 E12 E13 Hp Hnc.
+    constructor; rewrite ?E1, ?E2, ?E3, ?E4, ?E5, ?E6, ?E7, ?E8, ?E9, ?E10, ?E11, ?E12, ?E13; try assumption.
     split; [exact Hp|]. intro Hc. congruence.
   Qed.
   Lemma dict_get_set_same : forall (V : Type) u (d : V) l, dict_get ident_eqb u (dict_set ident_eqb u d l) = Some d.
@@ -2678,7 +2998,7 @@ Section Sim.
                              ltac:(lia) ltac:(lia) ltac:(lia) ltac:(lia) HfB HsB WB
                              ltac:(cbn [loop_p pp]; lia) ltac:(cbn [loop_p pp]; lia) ltac:(cbn [loop_p pt]; lia)
                              ltac:(cbn [loop_p pt]; lia) ltac:(cbn [loop_p pa]; lia) ltac:(cbn [loop_p pa]; lia)
-                             ltac:(lia) ltac:(lia) ltac:(unfold in_tb; cbn [loop_p pt]; lia) W1 W2 W3 W7 W8 W9 eq_refl)
+                             ltac:(lia) ltac:(lia) ltac:(unfold in_tb; cbn [loop_p pt]; lia) W1 W2 W3 W7 W8 W9 eq_refl eq_refl)
         as (ns' & m' & Hen & Mk & Ai & Ao & Inv' & Gr' & Ap' & Aw' & Sid' & Di' & Hab & Hcb); try assumption.
       { intros j Hj Hnj Hns Hnf. unfold in_tb in Hnj. cbn [loop_p pt] in Hnj.
         assert (j = pt p + 1) by lia. subst j.
@@ -2700,21 +3020,18 @@ Section Sim.
           try assumption; try lia.
         { exact (Hout_out _ _ _ _ _ _ _ HO Ao'). }
         rewrite ?nplaces_count, ?napis_count in *. cbn [startcbs] in Hen2. fold key in Hen2. fold CW in Hen2.
-        destruct Hen as [kk Hkk].
+        destruct Hen as (kk & mm & Hkk).
         assert (Ao2' : agrees_out (pp p) (pp p + (4 + nplaces_l B)) m m'').
         { intros q Hq. rewrite (Ao2 q Hq). apply Ao'. exact Hq. }
         pose proof Hres2 as (Inv2' & _).
-        exists ns'', m''. split; [|split; [exact Mk2|split; [exact Ai2|split; [exact Ao2'|split; [|exact Hact2]]]]].
-        * destruct (is_done st) eqn:D; cbn [Enters] in *.
-          -- destruct Hen2 as [k2 Hk2]. exists (k2 + S kk). intros rest K. cbn [app]. eapply MS_trans; [apply Hkk|].
-             specialize (Hk2 [] (Unw kk (rest :: K))). cbn [app] in Hk2. rewrite Unw_nest in Hk2. exact Hk2.
-          -- intros rest K. cbn [app]. eapply MS_trans; [apply Hkk|].
-             eapply MS_trans; [specialize (Hen2 [] (Unw kk (rest :: K))); cbn [app] in Hen2; exact Hen2|].
-             change ([] :: Unw kk (rest :: K)) with (Unw (S kk) (rest :: K)).
-             apply MS_unwind; [exact Inv2'|]. apply (dis_dead ns'' m'' Inv2' Mk2).
-             rewrite (mlx_nd _ _ _ D) in Ai2.
-             apply (stmt_dis (XCount v lim B) p ctx xcbs t2 st ns'' m m'' Hf Hwall D Hx2all); rewrite ?nplaces_count, ?ntrans_count; try assumption. exact (proj1 Hact2).
-        * assert (E0 : svc_ids st = [] ++ svc_ids st) by reflexivity. rewrite E0.
+        assert (Hd2 : is_done st = false -> dead ns'').
+        { intro D. apply (dis_dead ns'' m'' Inv2' Mk2). rewrite (mlx_nd _ _ _ D) in Ai2.
+          apply (stmt_dis (XCount v lim B) p ctx xcbs t2 st ns'' m m'' Hf Hwall D Hx2all); rewrite ?nplaces_count, ?ntrans_count; try assumption. exact (proj1 Hact2). }
+        pose proof (Enters_after (is_done st) [CW] [CW] ns ns' ns'' kk mm xcbs Hkk Hen2 Inv2' Hd2) as HenF.
+        exists (if is_done st then ns'' else bumpn (mm + sumn kk) ns''), m''.
+        split; [exact HenF|]. split; [destruct (is_done st); exact Mk2|]. split; [exact Ai2|]. split; [exact Ao2'|]. split; [|destruct (is_done st); exact Hact2].
+        apply StartRes_if.
+        assert (E0 : svc_ids st = [] ++ svc_ids st) by reflexivity. rewrite E0.
           eapply (StartRes_trans ns ns' ns'' g g2 g' pend [] (svc_ids st) p (napis_l B) p (napis_l B) p (napis_l B));
             [exact Hgr| |rewrite app_nil_r; exact Hres2|lia|lia|lia|lia].
           split; [exact Inv'|]. split; [rewrite app_nil_r; exact Gr'|]. split; [exact Ap'|].
@@ -2737,7 +3054,7 @@ Section Sim.
         - change (ns_awaited s3) with (ns_awaited s2). rewrite F16, (gr_aw _ _ _ Hgr). apply no_setplace_awaited.
         - apply (Marks_has_place s3 m _ Inv3); [eapply Marks_places; [|exact Hm]; change (ns_places s3) with (ns_places s2); exact F7|lia].
         - exact Hev. }
-      destruct (loop_else CW s3 B p ctx cid xcbs t2 g1 ns m pend HfB (loop_wired_count _ _ _ _ _ _ Hwall) Hnp HP HT Ht2 Hnt2 Hx2 Hinv Hctx Hm Hin HO
+      destruct (loop_else CW s3 B p ctx cid xcbs t2 g1 ns m pend eq_refl HfB (loop_wired_count _ _ _ _ _ _ Hwall) Hnp HP HT Ht2 Hnt2 Hx2 Hinv Hctx Hm Hin HO
                           Inv3 Gr3 F7 F8 F9 F10 F2 Hopen) as (ns' & m' & Hen & Mk & Ai & Ao & Inv' & Gr' & Ea & Ed & Es & Ec).
       destruct Hsame as (T1 & T2 & T3 & T4 & T5 & T6 & T7).
       exists ns', m'. split; [exact Hen|]. split; [exact Mk|]. split; [exact Ai|]. split; [exact Ao|].
@@ -2753,7 +3070,9 @@ Section Sim.
     intros s p ctx cid ie kl rt xcbs t2 g st g' ns m pend H Hf Hsok Hcx Hw Hnp HP HT Ht2 Hnt2 Hx2 Hinv Hgr Hctx Hlt Hm Hin HO.
     destruct f as [|f]; [discriminate H|].
     destruct s as [n at_ ins|t at_ ins bd|bs|e P F|e B|v lim B| ]; try discriminate Hf.
-    - eapply start_svc_case; eassumption.
+    - assert (Hne2 : t2 <> pt p) by (unfold in_t in Hnt2; cbn [ntrans] in Hnt2; lia).
+      cbn [nplaces ntrans xplace] in *.
+      eapply (start_svc_case f); try eassumption.
     - eapply (start_call_case f); eassumption.
     - eapply (start_par_case f); eassumption.
     - eapply (start_cond_case f); eassumption.
@@ -2771,74 +3090,6 @@ Section Sim.
     apply start_block_case. intros f0 _. apply start_ok.
   Qed.
 
-  Lemma del_svc_case : forall f ie n at_ ins p ctx cid xcbs t2 id' id g st' g' ns m pend pend0 finp,
-      deliver orc imm (S f) cid ie (XService n at_ ins) (RAwait id') id g = Ok (Some st', g') ->
-      (NC = true -> ie = []) -> NC || idxfree ins = true ->
-      wired N0 (XService n at_ ins) p ctx xcbs -> pp p + 3 <= nP -> pt p < nT ->
-      t2 < nT -> t2 <> pt p -> In (pp p + 2) (preN N0 t2) ->
-      Inv ns -> GR g ns pend -> remove_first (Nat.eqb id) pend = Some pend0 ->
-      act N0 ns (RAwait id') (XService n at_ ins) p ctx -> ctx_is ns ctx cid -> ctx < pa p ->
-      Marks ns m -> dict_get ident_eqb (ITest id) (ns_place_dict ns) = Some finp ->
-      (forall q, pp p <= q < pp p + 3 -> cnt m q = cnt [pp p] q + (if Nat.eqb q finp then 1 else 0)) ->
-      Hout (pp p) (pp p + 3) (pt p) (pt p + 1) t2 m ->
-      st' = RDone /\ pp p <= finp < pp p + 3 /\
-      exists tr ns' m',
-        nth_error (ns_trans N0) (pt p) = Some tr /\ (forall q, In q (tr_pre tr) -> In q m) /\
-        (forall j, j < nT -> j <> pt p -> dis m j) /\
-        RunList [CbSF (pa p)] (fire_ns tr ns) ns' /\
-        Marks ns' m' /\ agrees_in (pp p) (pp p + 3) m' [pp p + 2] /\ agrees_out (pp p) (pp p + 3) m m' /\
-        Post ns ns' g g' pend0 (pa p) (pa p + 1) /\ ns_counters ns' = ns_counters ns.
-  Proof.
-    intros f ie n at_ ins p ctx cid xcbs t2 id' id g st' g' ns m pend pend0 finp
-           H Hie Hidx Hw HP HT Ht2 Hne2 Hx2 Hinv Hgr Hrem Hact Hctx Hlt Hm Hd Hin Hout.
-    cbn [deliver] in H. destruct (Nat.eqb_spec id id') as [<-|Hneq]; [|discriminate H].
-    unfold bind in H. unfold emit in H.
-    rewrite emit_gen_eq in H.
-    unfold ret in H. injection H as E1 E2. subst st'.
-    cbn [act] in Hact. destruct Hact as ((il & Hapi) & Hdict & Hidlt).
-    assert (Hfin : finp = pp p + 1) by congruence. subst finp.
-    split; [reflexivity|]. split; [lia|].
-    cbn [wired] in Hw. destruct Hw as (Hpre & Hpost & _).
-    destruct (trans_exists (pt p) HT) as [tr Htr].
-    rewrite (nth_error_preN _ _ Htr) in Hpre. rewrite (nth_error_postN _ _ Htr) in Hpost.
-    set (m' := (pp p + 2) :: outside (pp p) (pp p + 3) m).
-    assert (Hen : forall q, In q (tr_pre tr) -> In q m).
-    { intros q Hq. rewrite Hpre in Hq. apply cnt_pos_in.
-      destruct Hq as [<-|[<-|[]]]; rewrite Hin by lia; cnt_cases. }
-    destruct (Marks_fire ns m tr m' Hm) as [Hm' Hlen'].
-    { intros x Hx. rewrite Hpost in Hx. destruct Hx as [<-|[]]. rewrite (iv_npl _ Hinv). unfold nP in HP. lia. }
-    { intro q. rewrite Hpre. destruct (Nat.eq_dec q (pp p)) as [->|N1]; [rewrite Hin by lia; cnt_cases|].
-      destruct (Nat.eq_dec q (pp p + 1)) as [->|N2]; [rewrite Hin by lia; cnt_cases|]. cnt_cases. }
-    { intro q. rewrite Hpre, Hpost. unfold m'.
-      destruct (inb (pp p) (pp p + 3) q) eqn:E.
-      - apply inb_spec in E. rewrite (Hin q E). cnt_cases.
-      - apply not_true_iff_false in E. rewrite inb_spec in E. cnt_cases. }
-    set (nsf := fire_ns tr ns) in *.
-    pose proof (Inv_fire ns tr Hinv Hlen') as Hinvf. pose proof (GR_fire g ns pend tr Hgr) as Hgrf.
-    set (a1 := with_uuid (ITest id) (svc_api il n at_ ins ctx (pa p))).
-    assert (Hapif : nth_error (ns_apis nsf) (pa p) = Some a1) by exact Hapi.
-    exists tr, (notified SF a1 false nsf), m'.
-    split; [exact Htr|]. split; [exact Hen|]. split.
-    { intros j Hj Hne. destruct (Nat.eq_dec j t2) as [->|Hn2].
-      - exists (pp p + 2). split; [exact Hx2|]. apply not_in_cnt. rewrite Hin by lia. cnt_cases.
-      - destruct (Hout j Hj ltac:(lia) Hn2) as (q & Q1 & _ & Q3). exists q. split; assumption. }
-    destruct (sim_fin SF (pa p) a1 (Some cid) false g g' nsf pend pend0 (or_introl eq_refl) Hinvf Hgrf Hapif)
-      as (Hcbs & Hinv' & Hgr' & Hpl & Hap & Hdi).
-    { cbn [octx_is a1 with_uuid svc_api a_ctx]. split; [exact Hctx|lia]. }
-    { exists id. split; [reflexivity|exact Hrem]. }
-    { rewrite <- E2. unfold g_step. cbn [a1 with_uuid svc_api a_name a_site a_uuid a_params ident_nat].
-      rewrite (subst_params_ok ie ins Hie Hidx). repeat split; reflexivity. }
-    split.
-    { econstructor; [apply RunCb_SF; [apply (iv_ls _ Hinvf)|exact Hapif]|exact Hcbs|constructor]. }
-    split; [eapply Marks_places; [exact Hpl|exact Hm']|].
-    split; [intros q Hq; unfold m'; cnt_cases|].
-    split; [intros q Hq; unfold m'; cnt_cases|].
-    split; [|rewrite nf_counters; reflexivity].
-    split; [exact Hinv'|]. split.
-    - constructor; [intros k _; rewrite Hap; reflexivity|rewrite nf_sid; apply Nat.le_refl|].
-      exists []. split; [rewrite Hdi; reflexivity|constructor].
-    - exists []. split; [rewrite <- E2, app_nil_r; reflexivity|rewrite app_nil_r; exact Hgr'].
-  Qed.
 
   Lemma found_in : forall f cid ie s st id g st' g',
       deliver orc imm f cid ie s st id g = Ok (Some st', g') -> In id (svc_ids st).
@@ -2997,7 +3248,7 @@ Section Sim.
                              Hrun Hn' Hfb Hsok Hcxf Hw Hnp HP HT Ht2 Hnt2 Hx2 Invf Grf Hctxa Hlt Mkf Hin'' (Hout_out _ _ _ _ _ _ _ HO Hout''))
       as (ns2 & m2 & Hen2 & Mk2 & Ai2 & Ao2 & Hres2 & Hact2 & Hc2). fold pj in Hen2.
     pose proof Hres2 as (Inv2 & Gr2 & Ap2 & Aw2 & Sid2 & Di2).
-    assert (Hgo : forall K, MS (ns, [] :: K) (nsf, startcbs s' pj ctx :: Unw k K)).
+    assert (Hgo : forall K, MS (ns, [] :: K) (nsf, startcbs s' pj ctx :: UnwE k K)).
     { intro K. eapply MS_trans; [apply Hk|].
       apply (MS_fire1 nsa m' c trc _ _ Inva Mka HcT Htrc Henc Hdisc C3 (no_parloop_startcbs _ _ _)). }
     assert (Ao2' : agrees_out (pp bp) (pp bp + nplaces_l l) m m2).
@@ -3012,16 +3263,12 @@ Section Sim.
       - exists (new1 ++ ids_opt r'). split; [rewrite Aw2, Aw1, app_assoc; reflexivity|].
         rewrite app_assoc. exact Gr2. }
     destruct r' as [[j st']|]; cbn [is_none Enters mlb actb ids_opt rchb] in *.
-    - exists ns2. split; [|split; [exact Hact2|exact Hc2]].
-      exists m2. split; [|split; [exact Mk2|split; [exact Ai2|split; [exact Ao2'|exact Hpost2]]]].
-      intro K. eapply MS_trans; [apply Hgo|].
-      eapply MS_trans; [specialize (Hen2 [] (Unw k K)); rewrite app_nil_r in Hen2; exact Hen2|].
-      change ([] :: Unw k K) with (Unw (S k) K). rewrite Unw_S'.
-      apply MS_unwind; [exact Inv2|]. apply (dis_dead ns2 m2 Inv2 Mk2).
+    - exists (bumpn (sumn k) ns2). split; [|split; [exact Hact2|exact Hc2]].
+      exists m2. split; [|split; [exact Mk2|split; [exact Ai2|split; [exact Ao2'|apply Post_bumpn; exact Hpost2]]]].
+      apply (Steps_after _ ns nsf ns2 k Hgo Hen2 Inv2). apply (dis_dead ns2 m2 Inv2 Mk2).
       apply (block_dis l bp ctx xcbs t2 j st' ns2 m m2 Hfb Hw Hx2 HO Ao2' Ai2 Hact2).
     - exists ns2, m2. split; [|split; [exact Mk2|split; [exact Ai2|split; [exact Ao2'|split; [exact Hpost2|exact Hc2]]]]].
-      destruct Hen2 as [k2 Hk2]. exists (k2 + S k). intro K. eapply MS_trans; [apply Hgo|].
-      specialize (Hk2 [] (Unw k K)). rewrite app_nil_r, Unw_nest in Hk2. exact Hk2.
+      apply (Exits_after _ ns nsf ns2 k xcbs Hgo Hen2).
   Qed.
 
   Lemma deliver_block_S : forall f cid ie l i sti id,
@@ -3188,8 +3435,8 @@ Section Sim.
       { rewrite <- Hg. unfold g_step. cbn [a1 with_uuid call_api a_name a_site a_uuid a_params ident_nat].
         rewrite Hsub. repeat split; reflexivity. }
       exists (notified TF a1 false nsa), m'. split.
-      { eapply Exits_cb; [exact Hex| |exact Hcbs].
-        pose proof (RunCb_TF (pa p) nsa a1 (iv_ls _ Inva) Hapia) as Hr.
+      { eapply Exits_cb; [exact Hex| |exact Hcbs|reflexivity].
+        pose proof (RunCb_TF (pa p) nsa a1 (proj1 (iv_ls _ Inva)) Hapia) as Hr.
         cbn [a1 with_uuid call_api a_name] in Hr. rewrite Hname in Hr. exact Hr. }
       split; [eapply Marks_places; [exact Plb|exact Mka]|]. split; [exact Aia|]. split; [exact Aoa|].
       split; [|apply (C0_same nsa _ kl (nf_counters _ _ _ _) Hca)].
@@ -3293,8 +3540,8 @@ Section Sim.
       (forall q, pp q0 <= q < pp q0 + nplaces_l bs ->
                  cnt m q = cnt (ml_list sts bs q0) q + (if Nat.eqb q finp then 1 else 0)) ->
       Hout (pp q0) (pp q0 + nplaces_l bs) (pt q0) (pt q0 + ntrans_l bs) sync m ->
-      exists ns' m' k,
-        (forall K, MS (ns, [] :: K) (ns', [] :: Unw (if all_done sts' then k else 0) K)) /\
+      exists ns' m' (k : list nat),
+        (forall K, MS (ns, [] :: K) (ns', [] :: UnwE (if all_done sts' then k else []) K)) /\
         Marks ns' m' /\ agrees_in (pp q0) (pp q0 + nplaces_l bs) m' (ml_list sts' bs q0) /\
         agrees_out (pp q0) (pp q0 + nplaces_l bs) m m' /\
         Post ns ns' g g' pend0 (pa q0) (pa q0 + napis_l bs) /\
@@ -3354,7 +3601,7 @@ Section Sim.
                    Hm Hd Hink Houtk) as Hres.
     assert (Hk_lt : k < List.length sts) by (apply nth_error_Some; congruence).
     (* in all cases: a state ns', a marking m' that is [mlx st'] inside the branch *)
-    assert (Hcommon : exists ns' m' kk, (forall K, MS (ns, [] :: K) (ns', [] :: Unw (if all_done (update_nth k st' sts) then kk else 0) K)) /\
+    assert (Hcommon : exists ns' m' (kk : list nat), (forall K, MS (ns, [] :: K) (ns', [] :: UnwE (if all_done (update_nth k st' sts) then kk else []) K)) /\
                                      Marks ns' m' /\
                                      agrees_in (pp pk) (pp pk + nplaces b) m' (mlx st' b pk) /\
                                      agrees_out (pp pk) (pp pk + nplaces b) m m' /\
@@ -3367,9 +3614,10 @@ Section Sim.
         + destruct Hex as [kk Hkk]. exists nsa, m', kk. split; [exact Hkk|]. split; [exact Mka|].
           split; [exact Aia|]. split; [exact Aoa|]. split; [exact Hpost|split; [exact I|exact Hca]].
         + (* some other branch is not complete: the sync cannot fire, the evaluations return *)
-          exists nsa, m', 0. split; [|split; [exact Mka|split; [exact Aia|split; [exact Aoa|split; [exact Hpost|split; [exact I|exact Hca]]]]]].
           pose proof Hpost as (Inva & _).
-          apply (Exits_steps ns nsa Hex Inva). apply (dis_dead nsa m' Inva Mka). intros j Hj.
+          assert (Hdd : dead nsa); [|destruct (Exits_steps ns nsa Hex Inva Hdd) as [jj Hst]; exists (bumpn jj nsa), m', [];
+            split; [exact Hst|split; [exact Mka|split; [exact Aia|split; [exact Aoa|split; [apply Post_bumpn; exact Hpost|split; [exact I|exact Hca]]]]]]].
+          apply (dis_dead nsa m' Inva Mka). intros j Hj.
           destruct (Nat.eq_dec j sync) as [->|Hne]; [|exact (exited_only_t2 b pk ctx [] sync m m' Hfb Wk Houtk Aoa Aia j Hj Hne)].
           destruct (all_done_false_nth _ AD) as (k' & st0 & Hs0' & Hd0).
           assert (Hkk : k' <> k).
@@ -3387,7 +3635,7 @@ Section Sim.
       - destruct Hres as (ns' & (m' & St & Mk & Ai & Ao & Hpost) & Hact & Hc').
         rewrite (rch_is_call st' b pk kl Hcallb) in Hc'.
         rewrite (all_done_update_false sts k st' Hk_lt D).
-        exists ns', m', 0. split; [exact St|]. split; [exact Mk|]. rewrite (mlx_nd _ _ _ D).
+        exists ns', m', []. split; [exact St|]. split; [exact Mk|]. rewrite (mlx_nd _ _ _ D).
         split; [exact Ai|]. split; [exact Ao|]. split; [exact Hpost|split; [exact Hact|exact Hc']]. }
     destruct Hcommon as (ns' & m' & kk & St & Mk & Ai & Ao & Hpost & Hact & Hcc).
     pose proof Hpost as (Inv' & Fr' & _).
@@ -3789,14 +4037,10 @@ Section Sim.
       destruct (is_done st2) eqn:D; cbn [Enters] in Hen.
       + pose proof (is_done_RDone _ D) as ->. cbn [mlx xplace] in Ai6.
         exists ns6, m6. split; [|split; [exact Mk6|split; [exact Ai6|split; [exact Ao6'|split; [exact Hpost6|exact Hc6]]]]].
-        destruct Hen as [k2 Hk2]. exists (k2 + S kk). intro K. eapply MS_trans; [apply Hkk|].
-        specialize (Hk2 [] (Unw kk K)). cbn [app] in Hk2. rewrite Unw_nest in Hk2. exact Hk2.
-      + rewrite (mlx_nd _ _ _ D) in Ai6. exists ns6. split; [|split; [exact Hact6|exact Hc6]].
-        exists m6. split; [|split; [exact Mk6|split; [exact Ai6|split; [exact Ao6'|exact Hpost6]]]].
-        intro K. eapply MS_trans; [apply Hkk|].
-        eapply MS_trans; [specialize (Hen [] (Unw kk K)); cbn [app] in Hen; exact Hen|].
-        change ([] :: Unw kk K) with (Unw (S kk) K). rewrite Unw_S'.
-        apply MS_unwind; [exact Inv6|]. apply (dis_dead ns6 m6 Inv6 Mk6).
+        apply (Exits_after [CW] ns ns5 ns6 kk xcbs Hkk Hen).
+      + rewrite (mlx_nd _ _ _ D) in Ai6. exists (bumpn (sumn kk) ns6). split; [|split; [exact Hact6|exact Hc6]].
+        exists m6. split; [|split; [exact Mk6|split; [exact Ai6|split; [exact Ao6'|apply Post_bumpn; exact Hpost6]]]].
+        apply (Steps_after [CW] ns ns5 ns6 kk Hkk Hen Inv6). apply (dis_dead ns6 m6 Inv6 Mk6).
         apply (stmt_dis (XWhile e B) p ctx xcbs t2 st2 ns6 m m6 Hf Hwall D Hx2all); rewrite ?nplaces_while, ?ntrans_while; assumption.
   Qed.
 
@@ -3878,14 +4122,10 @@ Section Sim.
       destruct (is_done st2) eqn:D; cbn [Enters] in Hen.
       + pose proof (is_done_RDone _ D) as ->. cbn [mlx xplace] in Ai6.
         exists ns6, m6. split; [|split; [exact Mk6|split; [exact Ai6|split; [exact Ao6'|split; [exact Hpost6|exact Hc6]]]]].
-        destruct Hen as [k2 Hk2]. exists (k2 + S kk). intro K. eapply MS_trans; [apply Hkk|].
-        specialize (Hk2 [] (Unw kk K)). cbn [app] in Hk2. rewrite Unw_nest in Hk2. exact Hk2.
-      + rewrite (mlx_nd _ _ _ D) in Ai6. exists ns6. split; [|split; [exact Hact6|exact Hc6]].
-        exists m6. split; [|split; [exact Mk6|split; [exact Ai6|split; [exact Ao6'|exact Hpost6]]]].
-        intro K. eapply MS_trans; [apply Hkk|].
-        eapply MS_trans; [specialize (Hen [] (Unw kk K)); cbn [app] in Hen; exact Hen|].
-        change ([] :: Unw kk K) with (Unw (S kk) K). rewrite Unw_S'.
-        apply MS_unwind; [exact Inv6|]. apply (dis_dead ns6 m6 Inv6 Mk6).
+        apply (Exits_after [CW] ns ns5 ns6 kk xcbs Hkk Hen).
+      + rewrite (mlx_nd _ _ _ D) in Ai6. exists (bumpn (sumn kk) ns6). split; [|split; [exact Hact6|exact Hc6]].
+        exists m6. split; [|split; [exact Mk6|split; [exact Ai6|split; [exact Ao6'|apply Post_bumpn; exact Hpost6]]]].
+        apply (Steps_after [CW] ns ns5 ns6 kk Hkk Hen Inv6). apply (dis_dead ns6 m6 Inv6 Mk6).
         apply (stmt_dis (XCount v lim B) p ctx xcbs t2 st2 ns6 m m6 Hf Hwall D Hx2all); rewrite ?nplaces_count, ?ntrans_count; assumption.
   Qed.
 
@@ -3910,7 +4150,7 @@ Section Sim.
       cbn [is_done]. exists ns', m'.
       split; [|split; [exact Mk'|split; [exact Ai|split; [exact Ao|split; [exact Hpost|]]]]].
       2:{ pose proof (cd_c0 _ _ _ _ _ _ _ _ Hcd) as Hc. rewrite rch_await in Hc. apply (C0_same ns ns' kl Hcn Hc). }
-      exists 0. intro K. eapply MS_trans; [apply (MS_fire1 ns m (pt p) tr _ K Hinv Hm ltac:(lia) Htr Hen Hdis Hcbs Hnp)|].
+      exists []. intro K. eapply MS_trans; [apply (MS_fire1 ns m (pt p) tr _ K Hinv Hm ltac:(lia) Htr Hen Hdis Hcbs Hnp)|].
       change (CbSF (pa p) :: xcbs) with ([CbSF (pa p)] ++ xcbs). apply MS_list. exact Hrl.
     - (* task call *)
       eapply (del_call_case f HB); eassumption.
@@ -4041,8 +4281,8 @@ Section Sim.
           destruct (Nat.eqb_spec q (xplace_b body p0)); [assumption|lia].
       + exact Q3.
       + reflexivity.
-      + eapply rl_cons; [|exact Hcbs5|apply rl_nil].
-        apply (RunCb_TF 0 nsf root_api (iv_ls _ Invf) Hapia).
+      + eapply rl_cons; [|exact Hcbs5|reflexivity|apply rl_nil].
+        apply (RunCb_TF 0 nsf root_api (proj1 (iv_ls _ Invf)) Hapia).
     - intros j0 Hj0. eapply dis_disabled; [exact Inv5|exact Mk5|].
       destruct j0 as [|[|j0]].
       + destruct (no_c1 _ _ HN0) as (P1 & _). exists 0. rewrite P1. split; [left; reflexivity|]. intros [E0|[]]. discriminate E0.
@@ -4091,7 +4331,7 @@ Section Sim.
     set (nsc := ns <| ns_log := [] |>).
     set (s1 := (nsc <| ns_running := true |>) <| ns_awaited := [] |>).
     assert (Inv1 : Inv s1).
-    { destruct Hinv as [I1 I2 I3 I4 I5 I6 I7 I8 I9 I10 I11]. constructor; assumption. }
+    { apply (Inv_eq ns s1 Hinv); try reflexivity; [intros e []|intros e He; exact He]. }
     assert (Gr1 : GR g1 s1 []).
     { constructor; try assumption; try reflexivity; cbn; try congruence. rewrite F4. reflexivity. }
     assert (Hlen0 : 0 < List.length (ns_places s1)).
@@ -4178,7 +4418,7 @@ Section Sim.
       { apply (Marks_ext ns4 m4 _ Mk4). apply (root_marking m3 m4 _ Hent); [|exact Ai4|exact Ao4].
         intros q Hq. apply (ml_range_block N0 ns4 body p0 0 j st0 Hfrag Hact4 q Hq). }
       assert (St : Steps s2 ns4).
-      { intro K. eapply MS_trans; [apply Hc1|]. eapply MS_trans; [apply MS_cb; [exact Hrun1|exact Hcbs1]|].
+      { intro K. eapply MS_trans; [apply Hc1|]. eapply MS_trans; [apply MS_cb; [exact Hrun1|exact Hcbs1|reflexivity]|].
         specialize (Hen4 [] K). rewrite app_nil_r in Hen4. exact Hen4. }
       exists ns4. split.
       + apply Hfire. apply (Steps_eval _ _ St Inv2 Inv4). intros j0 Hj0.
@@ -4191,19 +4431,18 @@ Section Sim.
       { intro q. rewrite (root_marking m3 m4 [xplace_b body p0] Hent); [cnt_cases|intros q0 [<-|[]]; apply (xplace_range_b body Hfrag p0)|exact Ai4|exact Ao4]. }
       rewrite app_nil_r in Gr4.
       destruct (root_exit ns4 m4 g4 st g' [] Inv4 Mk4 Hm4q Gr4 Hapi4 E) as (-> & Eaw & ns5 & St5 & Inv5 & Gr5 & Mk5 & Hd5).
-      assert (St : Steps s2 ns5).
-      { apply Exits_steps; [|exact Inv5|exact Hd5]. destruct Hen4 as [k Hk]. exists (S k). intro K.
-        eapply MS_trans; [apply Hc1|]. eapply MS_trans; [apply MS_cb; [exact Hrun1|exact Hcbs1]|].
+      destruct Hen4 as (ms & mm & Hk).
+      assert (St : Steps s2 (bumpn (mm + sumn ms) ns5)).
+      { intro K. eapply MS_trans; [apply Hc1|]. eapply MS_trans; [apply MS_cb; [exact Hrun1|exact Hcbs1|reflexivity]|].
         eapply MS_trans; [specialize (Hk [] K); rewrite app_nil_r in Hk; exact Hk|].
-        rewrite Unw_S'. apply St5. }
-      exists ns5. split.
-      + apply Hfire. apply (Steps_eval _ _ St Inv2 Inv5 Hd5).
-      + split; [exact Inv5|]. split; [apply (gr_log _ _ _ Gr5)|]. cbn [sc_root sc_g].
-        split; [|exact Mk5]. rewrite Eaw, Aw4, Haw3. exact Gr5.
+        eapply MS_trans; [apply St5|]. eapply MS_trans; [apply MS_unwind; [exact Inv5|exact Hd5]|].
+        eapply MS_trans; [apply MS_marks|]. rewrite Mach.bumpn_add. apply MS_refl. }
+      exists (bumpn (mm + sumn ms) ns5). split.
+      + apply Hfire. apply (Steps_eval _ _ St Inv2 (Inv_bumpn _ _ Inv5) Hd5).
+      + split; [apply Inv_bumpn; exact Inv5|]. split; [apply (gr_log _ _ _ Gr5)|]. cbn [sc_root sc_g].
+        split; [|exact Mk5]. rewrite Eaw, Aw4, Haw3. apply GR_bumpn. exact Gr5.
   Qed.
 
-  Lemma existsb_EvF : forall id aw, existsb (event_eqb (EvFinish (ITest id))) (map EvF aw) = mem id aw.
-  Proof. induction aw as [|x r IH]; [reflexivity|]. cbn [map existsb mem EvF event_eqb ident_eqb]. rewrite IH. reflexivity. Qed.
 
   Lemma remove_first_EvF : forall id aw,
       remove_first (event_eqb (EvFinish (ITest id))) (map EvF aw) = option_map (map EvF) (remove_first (Nat.eqb id) aw).
@@ -4259,7 +4498,10 @@ Section Sim.
     (* the net side *)
     set (nsc := ns <| ns_log := [] |>).
     set (s1' := nsc <| ns_awaited := map EvF aw' |>).
-    assert (Inv1 : Inv s1') by (destruct Hinv as [I1 I2 I3 I4 I5 I6 I7 I8 I9 I10 I11]; constructor; assumption).
+    assert (Inv1 : Inv s1').
+    { apply (Inv_eq ns s1' Hinv); try reflexivity; [|intros e He; exact He].
+      intros e He. change (ns_awaited s1') with (map EvF aw') in He. rewrite (gr_aw _ _ _ Hgr).
+      apply in_map_iff in He. destruct He as (x & <- & Hx). apply in_map. apply (remove_first_sub _ _ _ _ _ Hrem Hx). }
     assert (Gr1 : GR g2 s1' (g_awaited (sc_g sc))).
     { destruct Hgr as [G1 G2 G3 G4 G5 G6 G7 G8 G9 G10]. constructor; try assumption; reflexivity. }
     assert (Hlenp : finp < List.length (ns_places s1')).
@@ -4316,11 +4558,11 @@ Section Sim.
       assert (Hapia : nth_error (ns_apis nsa) 0 = Some root_api).
       { rewrite (fr_apis _ _ _ _ Fra) by (cbn [p0 pa]; lia). exact Hapi0. }
       destruct (root_exit nsa m' g3 st g' (aw' ++ new) Inva Mka Hm'q Gra Hapia E) as (-> & Eaw & ns5 & St5 & Inv5 & Gr5 & Mk5 & Hd5).
-      assert (St : Steps s2 ns5) by (apply Exits_steps; [exact (Exits_then _ _ _ Hex St5)|exact Inv5|exact Hd5]).
-      exists ns5. split.
-      + apply Hfire. apply (Steps_eval _ _ St Inv2 Inv5 Hd5).
-      + split; [exact Inv5|]. split; [apply (gr_log _ _ _ Gr5)|]. cbn [sc_root sc_g].
-        split; [|exact Mk5]. rewrite Eaw, Awa. exact Gr5.
+      destruct (Exits_steps s2 ns5 (Exits_then _ _ _ Hex St5) Inv5 Hd5) as [jj St].
+      exists (bumpn jj ns5). split.
+      + apply Hfire. apply (Steps_eval _ _ St Inv2 (Inv_bumpn _ _ Inv5) Hd5).
+      + split; [apply Inv_bumpn; exact Inv5|]. split; [apply (gr_log _ _ _ Gr5)|]. cbn [sc_root sc_g].
+        split; [|exact Mk5]. rewrite Eaw, Awa. apply GR_bumpn. exact Gr5.
   Qed.
 
   (* ---- discarding the log of the previous call ---- *)
@@ -4403,7 +4645,8 @@ Section Sim.
     destruct (no_sched _ _ HN0) as (S1 & S2 & S3 & S4 & S5 & S6 & S7 & S8 & S9 & S10 & S11 & S12 & S13).
     split; [|split; [exact S9|]].
     - constructor; try assumption; try reflexivity.
-      + rewrite S7. apply ls_ok_default.
+      + rewrite S7, S8, S2, S13. split; [apply ls_ok_default|]. split; [intros _; split; reflexivity|].
+        split; [intros i [Hi|[]]; discriminate Hi|intros i []].
       + rewrite S4. split; [constructor|reflexivity].
       + apply (no_start _ _ HN0).
       + apply (no_final _ _ HN0).
@@ -4421,8 +4664,13 @@ Section Sim.
   Qed.
 
   (* ---- every API call of the fragment ---- *)
+  (* when the engine may complete services at once, no further function is registered for
+     service-started notifications and no observer is attached *)
   Definition ok_call (c : apicall) : bool :=
-    match c with AStart | AFinish _ | AJunk | ARegister _ _ | AAttach _ | ADetach _ => true end.
+    match c with
+    | ARegister SS _ | AAttach _ => negb IM
+    | _ => true
+    end.
 
   Lemma junk_not_awaited : forall l, existsb (event_eqb EvJunk) l = false.
   Proof. induction l as [|e l IH]; [reflexivity|]. cbn. destruct e; cbn; exact IH. Qed.
@@ -4450,11 +4698,13 @@ Section Sim.
     - destruct Hrel as (_ & _ & _ & _ & _ & _ & _ & _ & _ & H1 & H2 & _). split; assumption.
   Qed.
 
-  Lemma Rel_set_ls : forall sc ns ls', Rel sc ns -> ls_ok ls' ->
+  Lemma Rel_set_ls : forall sc ns ls', Rel sc ns -> ls_ok ls' -> (IM = true -> listeners_of SS ls' = [0]) ->
       Rel {| sc_g := sc_g sc <| g_ls := ls' |>; sc_root := sc_root sc |} (ns <| ns_ls := ls' |>).
   Proof.
-    intros sc ns ls' (Hinv & Hlog & Hrel) Hok. split; [|split; [exact Hlog|]].
-    - destruct Hinv as [I1 I2 I3 I4 I5 I6 I7 I8 I9 I10 I11]. constructor; assumption.
+    intros sc ns ls' (Hinv & Hlog & Hrel) Hok Hnew. split; [|split; [exact Hlog|]].
+    - destruct Hinv as [I1 I2 I3 I4 I5 I6 I7 I8 I9 I10 I11]. constructor; try assumption.
+      destruct I4 as (A4 & B4 & C4 & D4). split; [exact Hok|]. split; [|split; assumption].
+      intro Hi. split; [apply Hnew; exact Hi|apply (B4 Hi)].
     - cbn [sc_root sc_g]. destruct (sc_root sc) as [[|id0|cid i sti|sts|bb i sti|k i sti|sts]|]; try contradiction.
       + destruct Hrel as (Hgr & Hmk). split; [|exact Hmk].
         destruct Hgr as [G1 G2 G3 G4 G5 G6 G7 G8 G9 G10]. constructor; try assumption; reflexivity.
@@ -4466,11 +4716,13 @@ Section Sim.
         repeat split; try assumption; reflexivity.
   Qed.
 
-  Lemma Rel_set_obs : forall sc ns obs', Rel sc ns ->
+  Lemma Rel_set_obs : forall sc ns obs', Rel sc ns -> (IM = true -> obs' = []) ->
       Rel {| sc_g := sc_g sc <| g_obs := obs' |>; sc_root := sc_root sc |} (ns <| ns_obs := obs' |>).
   Proof.
-    intros sc ns obs' (Hinv & Hlog & Hrel). split; [|split; [exact Hlog|]].
-    - destruct Hinv as [I1 I2 I3 I4 I5 I6 I7 I8 I9 I10 I11]. constructor; assumption.
+    intros sc ns obs' (Hinv & Hlog & Hrel) Hnew. split; [|split; [exact Hlog|]].
+    - destruct Hinv as [I1 I2 I3 I4 I5 I6 I7 I8 I9 I10 I11]. constructor; try assumption.
+      destruct I4 as (A4 & B4 & C4 & D4). split; [exact A4|]. split; [|split; assumption].
+      intro Hi. split; [apply (B4 Hi)|apply Hnew; exact Hi].
     - cbn [sc_root sc_g]. destruct (sc_root sc) as [[|id0|cid i sti|sts|bb i sti|k i sti|sts]|]; try contradiction.
       + destruct Hrel as (Hgr & Hmk). split; [|exact Hmk].
         destruct Hgr as [G1 G2 G3 G4 G5 G6 G7 G8 G9 G10]. constructor; try assumption; reflexivity.
@@ -4521,7 +4773,7 @@ Section Sim.
       exists ns', (exists f0, forall f, f0 <= f -> net_api_call tasks env f ns c = Ok (b, ns')) /\ Rel sc' ns'.
   Proof.
     intros fu sc ns c b sc' Hok Hrel H.
-    destruct c as [|id| |k l|o|o]; try discriminate Hok.
+    destruct c as [|id| |k l|o|o].
     - (* start *)
       destruct (sc_root sc) as [r0|] eqn:Hroot; [|eapply rel_start; eassumption].
       unfold api_call in H. rewrite Hroot in H. injection H as Hb Hsc. subst b sc'.
@@ -4553,10 +4805,12 @@ Section Sim.
         injection H as Hb Hsc; subst b sc'.
       + exists (ns <| ns_log := [] |>). split; [exists 0; intros; reflexivity|exact Hc].
       + eexists. split; [exists 0; intros; reflexivity|].
-        rewrite <- Els. apply (Rel_set_ls (cleared_sc sc) (ns <| ns_log := [] |>) _ Hc).
-        rewrite Els. apply ls_ok_register; [|exact Ex].
-        destruct Hc as (Hi & _). pose proof (iv_ls _ Hi) as Hl. change (ns_ls (ns <| ns_log := [] |>)) with (ns_ls ns) in Hl.
-        rewrite Els in Hl. exact Hl.
+        rewrite <- Els.
+        pose proof Hc as (Hi & _). pose proof (iv_ls _ Hi) as (Hl & Hlo & _). change (ns_ls (ns <| ns_log := [] |>)) with (ns_ls ns) in Hl, Hlo.
+        apply (Rel_set_ls (cleared_sc sc) (ns <| ns_log := [] |>) _ Hc).
+        * rewrite Els. apply ls_ok_register; [|exact Ex]. rewrite Els in Hl. exact Hl.
+        * intro Him. rewrite listeners_app. destruct (Hlo Him) as [HL _]. rewrite HL.
+          destruct k; try reflexivity. cbn [ok_call] in Hok. rewrite Him in Hok. discriminate Hok.
     - (* attach an observer *)
       pose proof (Rel_clear sc ns Hrel) as Hc. destruct (Rel_ls_obs _ _ Hc) as [_ Eobs]. cbn [cleared_sc sc_g] in Eobs.
       unfold api_call in H. injection H as Hb Hsc. subst b sc'.
@@ -4564,15 +4818,18 @@ Section Sim.
       change (g_obs (clear_log (sc_g sc))) with (g_obs (sc_g sc)) in *.
       change (ns_obs (ns <| ns_log := [] |>)) with (ns_obs ns) in *. rewrite Eobs.
       apply (Rel_set_obs (cleared_sc sc) (ns <| ns_log := [] |>) _ Hc).
+      intro Him. cbn [ok_call] in Hok. rewrite Him in Hok. discriminate Hok.
     - (* detach an observer *)
       pose proof (Rel_clear sc ns Hrel) as Hc. destruct (Rel_ls_obs _ _ Hc) as [_ Eobs]. cbn [cleared_sc sc_g] in Eobs.
       unfold api_call in H. unfold net_api_call.
       change (g_obs (clear_log (sc_g sc))) with (g_obs (sc_g sc)) in *.
       change (ns_obs (ns <| ns_log := [] |>)) with (ns_obs ns) in *. rewrite Eobs.
-      destruct (remove_first (Nat.eqb o) (g_obs (sc_g sc))) as [l'|]; [|discriminate H].
+      destruct (remove_first (Nat.eqb o) (g_obs (sc_g sc))) as [l'|] eqn:Erm; [|discriminate H].
       injection H as Hb Hsc. subst b sc'.
       eexists. split; [exists 0; intros; reflexivity|].
       apply (Rel_set_obs (cleared_sc sc) (ns <| ns_log := [] |>) _ Hc).
+      intro Him. exfalso. pose proof Hc as (Hi & _). destruct (iv_ls _ Hi) as (_ & Hlo & _). destruct (Hlo Him) as [_ Ho].
+      change (ns_obs (ns <| ns_log := [] |>)) with (ns_obs ns) in Ho. rewrite Eobs in Ho. rewrite Ho in Erm. discriminate Erm.
   Qed.
 
   Theorem script_sim : forall fu script sc ns tr,
